@@ -1,21 +1,3211 @@
-//! C11 — not built yet (stub).
+//! C11 — Decoding untrusted bytes never panics, aborts, hangs or over-allocates.
+//!
+//! Layout of this file:
+//! * `dec` — the decoding core: numbered entry points (every decoder reachable
+//!   from the network / API) plus the stateless post-decode checks. It depends
+//!   only on the grin crates, so the cargo-fuzz crate under `harness/fuzz`
+//!   includes this very file (`#[path]`, with `--cfg fuzzing`) and runs the same
+//!   code under libFuzzer.
+//! * `hs` (not compiled when fuzzing) — the harness side: worker processes
+//!   (`gv child x C11 worker`), case generation (honest encodings + structure-aware
+//!   mutations located through a recording `Reader`), the oracle, reporting,
+//!   replay and the thorough-tier libFuzzer campaigns.
+//!
+//! A case is `{entry, version, flags, hex | text}`; replay runs it in a fresh
+//! worker with strict reporting.
 
-use crate::engine::*;
-use serde_json::Value;
+#![allow(unexpected_cfgs)]
 
-pub fn run(_ctx: &Ctx) -> HResult<()> {
-	Err(HarnessError("C11 check not built yet".into()))
+#[allow(dead_code)]
+pub mod dec {
+	use croaring::Bitmap;
+	use grin_chain::txhashset::{BitmapAccumulator, BitmapChunk, BitmapSegment};
+	use grin_core::core::hash::Hash;
+	use grin_core::core::merkle_proof::MerkleProof;
+	use grin_core::core::pmmr::{self, ReadablePMMR, ReadonlyPMMR, VecBackend, PMMR};
+	use grin_core::core::{
+		Block, BlockHeader, CompactBlock, FeeFields, Input, KernelFeatures, NRDRelativeHeight, Output, OutputFeatures, OutputIdentifier,
+		Segment, SegmentIdentifier, SegmentProof, Transaction, TransactionBody, TxKernel, UntrustedBlock, UntrustedBlockHeader,
+		UntrustedCompactBlock, Weighting,
+	};
+	use grin_core::global::{self, ChainTypes};
+	use grin_core::pow::{Proof, ProofOfWork};
+	use grin_core::ser::{self, BinReader, BufReader, DeserializationMode, PMMRIndexHashable, PMMRable, ProtocolVersion, Readable, Reader};
+	use grin_p2p::msg::{
+		read_message, BanReason, GetPeerAddrs, Hand, Locator, MsgHeaderWrapper, OutputBitmapSegmentResponse, OutputSegmentResponse, PeerAddrs,
+		PeerError, Ping, Pong, SegmentRequest, SegmentResponse, Shake, TxHashSetArchive, TxHashSetRequest, Type,
+	};
+	use grin_p2p::PeerAddr;
+	use grin_util::secp::pedersen::{Commitment, RangeProof};
+	use grin_util::secp::Signature;
+	use std::cell::Cell;
+	use std::sync::atomic::{AtomicBool, Ordering};
+	use std::sync::OnceLock;
+
+	// ------------------------------------------------------------------ flags
+
+	/// chain type Mainnet (proof size 42, mainnet magic and weights) instead of AutomatedTesting
+	pub const F_MAINNET: u8 = 1;
+	/// directed case: do not skip the preconditions excluded because of known findings
+	pub const F_NOEXCL: u8 = 2;
+	/// `BinReader` over a slice (handshake / API / db path) instead of `BufReader` (codec path)
+	pub const F_BIN: u8 = 4;
+
+	// ------------------------------------------------------------------ entry points
+
+	#[derive(Clone, Copy, Debug)]
+	pub struct EntryDef {
+		pub id: u16,
+		pub name: &'static str,
+		/// fuzz target / corpus group
+		pub group: &'static str,
+		/// input is a string (from_hex family)
+		pub text: bool,
+		/// input is a framed message stream
+		pub framed: bool,
+		/// encoding depends on the protocol version
+		pub versioned: bool,
+		/// default reader is BinReader
+		pub bin: bool,
+	}
+
+	pub const E_PING: u16 = 0;
+	pub const E_PONG: u16 = 1;
+	pub const E_BAN: u16 = 2;
+	pub const E_HASH: u16 = 3;
+	pub const E_TX: u16 = 4;
+	pub const E_UBLOCK: u16 = 5;
+	pub const E_UCOMPACT: u16 = 6;
+	pub const E_LOCATOR: u16 = 7;
+	pub const E_UHEADER: u16 = 8;
+	pub const E_GETPEERS: u16 = 9;
+	pub const E_PEERADDRS: u16 = 10;
+	pub const E_TXHSREQ: u16 = 11;
+	pub const E_TXHSARCH: u16 = 12;
+	pub const E_SEGREQ: u16 = 13;
+	pub const E_BITMAPRESP: u16 = 14;
+	pub const E_OUTRESP: u16 = 15;
+	pub const E_RPRESP: u16 = 16;
+	pub const E_KERNRESP: u16 = 17;
+	pub const E_HAND: u16 = 18;
+	pub const E_SHAKE: u16 = 19;
+	pub const E_PEERERR: u16 = 20;
+	pub const E_HEADER: u16 = 21;
+	pub const E_BLOCK: u16 = 22;
+	pub const E_COMPACT: u16 = 23;
+	pub const E_BODY: u16 = 24;
+	pub const E_MSGHDR: u16 = 25;
+	pub const E_RM_HAND: u16 = 26;
+	pub const E_RM_SHAKE: u16 = 27;
+	pub const E_CODEC: u16 = 28;
+	pub const E_MERKLE: u16 = 30;
+	pub const E_MERKLE_HEX: u16 = 31;
+	pub const E_UTIL_HEX: u16 = 32;
+	pub const E_SEG_OUT: u16 = 33;
+	pub const E_SEG_RP: u16 = 34;
+	pub const E_SEG_KERN: u16 = 35;
+	pub const E_BITMAPSEG: u16 = 36;
+	pub const E_SEGPROOF: u16 = 37;
+	pub const E_PROOF: u16 = 38;
+	pub const E_POW: u16 = 39;
+	pub const E_KERNEL: u16 = 40;
+	pub const E_OUTPUT: u16 = 41;
+	pub const E_OUTID: u16 = 42;
+	pub const E_RANGEPROOF: u16 = 43;
+	pub const E_INPUT: u16 = 44;
+	pub const E_KFEATURES: u16 = 45;
+	pub const E_PEERADDR: u16 = 46;
+	pub const E_SEGID: u16 = 47;
+
+	const fn e(id: u16, name: &'static str, group: &'static str, versioned: bool, bin: bool) -> EntryDef {
+		EntryDef { id, name, group, text: false, framed: false, versioned, bin }
+	}
+
+	pub const ENTRIES: &[EntryDef] = &[
+		e(E_PING, "Ping", "msg_body", false, false),
+		e(E_PONG, "Pong", "msg_body", false, false),
+		e(E_BAN, "BanReason", "msg_body", false, false),
+		e(E_HASH, "Hash", "msg_body", false, false),
+		e(E_TX, "Transaction", "block_tx", true, false),
+		e(E_UBLOCK, "UntrustedBlock", "block_tx", true, false),
+		e(E_UCOMPACT, "UntrustedCompactBlock", "block_tx", true, false),
+		e(E_LOCATOR, "Locator", "msg_body", false, false),
+		e(E_UHEADER, "UntrustedBlockHeader", "header", false, false),
+		e(E_GETPEERS, "GetPeerAddrs", "msg_body", false, false),
+		e(E_PEERADDRS, "PeerAddrs", "msg_body", false, false),
+		e(E_TXHSREQ, "TxHashSetRequest", "msg_body", false, false),
+		e(E_TXHSARCH, "TxHashSetArchive", "msg_body", false, false),
+		e(E_SEGREQ, "SegmentRequest", "msg_body", false, false),
+		e(E_BITMAPRESP, "OutputBitmapSegmentResponse", "bitmap_segment", false, false),
+		e(E_OUTRESP, "OutputSegmentResponse", "segment", false, false),
+		e(E_RPRESP, "SegmentResponse<RangeProof>", "segment", false, false),
+		e(E_KERNRESP, "SegmentResponse<TxKernel>", "segment", true, false),
+		e(E_HAND, "Hand", "msg_body", false, true),
+		e(E_SHAKE, "Shake", "msg_body", false, true),
+		e(E_PEERERR, "PeerError", "msg_body", false, true),
+		e(E_HEADER, "BlockHeader", "header", false, true),
+		e(E_BLOCK, "Block", "block_tx", true, true),
+		e(E_COMPACT, "CompactBlock", "block_tx", true, true),
+		e(E_BODY, "TransactionBody", "block_tx", true, true),
+		e(E_MSGHDR, "MsgHeaderWrapper", "framing", false, false),
+		EntryDef { id: E_RM_HAND, name: "read_message<Hand>", group: "framing", text: false, framed: true, versioned: false, bin: true },
+		EntryDef { id: E_RM_SHAKE, name: "read_message<Shake>", group: "framing", text: false, framed: true, versioned: false, bin: true },
+		EntryDef { id: E_CODEC, name: "Codec::read", group: "codec", text: false, framed: true, versioned: true, bin: false },
+		e(E_MERKLE, "MerkleProof::read", "merkle_proof", false, true),
+		EntryDef { id: E_MERKLE_HEX, name: "MerkleProof::from_hex", group: "merkle_proof", text: true, framed: false, versioned: false, bin: true },
+		EntryDef { id: E_UTIL_HEX, name: "util::from_hex", group: "merkle_proof", text: true, framed: false, versioned: false, bin: true },
+		e(E_SEG_OUT, "Segment<OutputIdentifier>", "segment", false, false),
+		e(E_SEG_RP, "Segment<RangeProof>", "segment", false, false),
+		e(E_SEG_KERN, "Segment<TxKernel>", "segment", true, false),
+		e(E_BITMAPSEG, "BitmapSegment", "bitmap_segment", false, false),
+		e(E_SEGPROOF, "SegmentProof", "segment", false, false),
+		e(E_PROOF, "Proof", "header", false, false),
+		e(E_POW, "ProofOfWork", "header", false, false),
+		e(E_KERNEL, "TxKernel", "block_tx", true, false),
+		e(E_OUTPUT, "Output", "block_tx", false, false),
+		e(E_OUTID, "OutputIdentifier", "block_tx", false, false),
+		e(E_RANGEPROOF, "RangeProof", "block_tx", false, false),
+		e(E_INPUT, "Input", "block_tx", false, false),
+		e(E_KFEATURES, "KernelFeatures", "block_tx", true, false),
+		e(E_PEERADDR, "PeerAddr", "msg_body", false, false),
+		e(E_SEGID, "SegmentIdentifier", "msg_body", false, false),
+	];
+
+	pub fn entry(id: u16) -> Option<&'static EntryDef> {
+		ENTRIES.iter().find(|e| e.id == id)
+	}
+
+	pub fn entry_by_name(name: &str) -> Option<&'static EntryDef> {
+		ENTRIES.iter().find(|e| e.name == name)
+	}
+
+	pub fn entry_name(id: u16) -> &'static str {
+		entry(id).map(|e| e.name).unwrap_or("?")
+	}
+
+	pub const GROUPS: &[&str] = &["msg_body", "block_tx", "header", "segment", "bitmap_segment", "merkle_proof", "framing", "codec"];
+
+	pub const VERSIONS: [u32; 4] = [1, 2, 3, 1000];
+
+	/// entries of one fuzz group, in table order (the fuzz input's first byte selects among them)
+	pub fn group_entries(group: &str) -> Vec<&'static EntryDef> {
+		ENTRIES.iter().filter(|e| e.group == group).collect()
+	}
+
+	/// fuzz input = [selector, version index, flags] ++ data
+	pub fn fuzz_split<'a>(group: &str, input: &'a [u8]) -> Option<(u16, u32, u8, &'a [u8])> {
+		if input.len() < 3 {
+			return None;
+		}
+		let es = group_entries(group);
+		if es.is_empty() {
+			return None;
+		}
+		let e = es[input[0] as usize % es.len()];
+		let v = VERSIONS[input[1] as usize % 4];
+		let flags = input[2] & (F_MAINNET | F_BIN);
+		Some((e.id, v, flags, &input[3..]))
+	}
+
+	pub fn fuzz_join(id: u16, version: u32, flags: u8, data: &[u8]) -> Option<(&'static str, Vec<u8>)> {
+		let e = entry(id)?;
+		let es = group_entries(e.group);
+		let sel = es.iter().position(|x| x.id == id)? as u8;
+		let vi = VERSIONS.iter().position(|v| *v == version).unwrap_or(0) as u8;
+		let mut out = vec![sel, vi, flags & (F_MAINNET | F_BIN)];
+		out.extend_from_slice(data);
+		Some((e.group, out))
+	}
+
+	// ------------------------------------------------------------------ known-finding preconditions (exclusion by construction)
+
+	/// MerkleProof::read pre-allocates `path_len` hashes unchecked: further
+	/// MerkleProof inputs keep the declared path length at or below this cap.
+	pub const MERKLE_PATH_CAP: u64 = 4096;
+
+	/// declared path_len of a MerkleProof encoding
+	pub fn merkle_declared_len(b: &[u8]) -> Option<u64> {
+		if b.len() < 16 {
+			return None;
+		}
+		let mut a = [0u8; 8];
+		a.copy_from_slice(&b[8..16]);
+		Some(u64::from_be_bytes(a))
+	}
+
+	#[derive(Debug, PartialEq, Eq)]
+	pub enum HexClass {
+		Valid(Vec<u8>),
+		/// util::from_hex answers Err
+		Invalid,
+		/// a two-byte chunk boundary falls inside a multi-byte character before any invalid chunk
+		Boundary,
+	}
+
+	/// independent model of util::from_hex (trim, strip "0x"s, pairs of hex digits)
+	pub fn hex_class(s: &str) -> HexClass {
+		let t = s.trim().trim_start_matches("0x");
+		if t.len() % 2 != 0 {
+			return HexClass::Invalid;
+		}
+		let mut out = vec![];
+		let mut i = 0;
+		while i < t.len() {
+			if !t.is_char_boundary(i) || !t.is_char_boundary(i + 2) {
+				return HexClass::Boundary;
+			}
+			match u8::from_str_radix(&t[i..i + 2], 16) {
+				Ok(b) => out.push(b),
+				Err(_) => return HexClass::Invalid,
+			}
+			i += 2;
+		}
+		HexClass::Valid(out)
+	}
+
+	/// The framing layer buffers an announced message body before it arrives
+	/// (Codec::read_inner reserves msg_len, msg::read_body / read_discard allocate
+	/// msg_len): a header announcing more than this many bytes that are not in
+	/// the input is excluded after the finding was recorded.
+	pub const FRAME_ANNOUNCE_CAP: u64 = 4 << 20;
+
+	/// does some message header of the stream announce > FRAME_ANNOUNCE_CAP bytes that the input does not hold
+	pub fn frame_overannounce(data: &[u8]) -> bool {
+		let mut at = 0usize;
+		while at + 11 <= data.len() {
+			let mut a = [0u8; 8];
+			a.copy_from_slice(&data[at + 3..at + 11]);
+			let len = u64::from_be_bytes(a);
+			let rest = (data.len() - at - 11) as u64;
+			if len > rest {
+				return len > FRAME_ANNOUNCE_CAP;
+			}
+			at += 11 + len as usize;
+		}
+		false
+	}
+
+	/// BitmapSegment::into_segment computes leaf positions 2n - popcount(n) that wrap
+	/// for leaf indices n >= 2^63 (Segment::from_parts then asserts): identifiers whose
+	/// segment reaches that range are excluded after the finding was recorded.
+	pub fn bitmap_offset_wraps(data: &[u8], at: usize) -> bool {
+		if data.len() < at + 9 {
+			return false;
+		}
+		let h = data[at];
+		let mut a = [0u8; 8];
+		a.copy_from_slice(&data[at + 1..at + 9]);
+		let idx = u64::from_be_bytes(a);
+		if h > 13 {
+			return false;
+		}
+		match idx.checked_mul(1u64 << h) {
+			Some(off) => off.saturating_add(1u64 << h) > 1u64 << 63,
+			None => false,
+		}
+	}
+
+	/// Some(reason) if this case meets a precondition excluded because of a known finding
+	pub fn excluded_by_known(entry: u16, flags: u8, data: &[u8]) -> Option<&'static str> {
+		if flags & F_NOEXCL != 0 {
+			return None;
+		}
+		match entry {
+			E_MERKLE => match merkle_declared_len(data) {
+				Some(n) if n > MERKLE_PATH_CAP => Some("merkle-path-len"),
+				_ => None,
+			},
+			E_MERKLE_HEX => match std::str::from_utf8(data).map(hex_class) {
+				Ok(HexClass::Valid(b)) => match merkle_declared_len(&b) {
+					Some(n) if n > MERKLE_PATH_CAP => Some("merkle-path-len"),
+					_ => None,
+				},
+				Ok(HexClass::Invalid) => Some("from_hex-unwrap"),
+				Ok(HexClass::Boundary) => Some("hex-char-boundary"),
+				Err(_) => None,
+			},
+			E_UTIL_HEX => match std::str::from_utf8(data).map(hex_class) {
+				Ok(HexClass::Boundary) => Some("hex-char-boundary"),
+				_ => None,
+			},
+			E_CODEC | E_RM_HAND | E_RM_SHAKE if frame_overannounce(data) => Some("frame-announces-absent-megabytes"),
+			E_BITMAPSEG if bitmap_offset_wraps(data, 0) => Some("bitmap-leaf-offset>=2^63"),
+			E_BITMAPRESP if bitmap_offset_wraps(data, 32) => Some("bitmap-leaf-offset>=2^63"),
+			_ => None,
+		}
+	}
+
+	// ------------------------------------------------------------------ counting / recording reader
+
+	#[derive(Clone, Copy, Debug, PartialEq, Eq, Hash)]
+	pub enum FK {
+		U8,
+		U16,
+		U32,
+		U64,
+		Fixed,
+		LenBytes,
+	}
+
+	impl FK {
+		pub fn name(&self) -> &'static str {
+			match self {
+				FK::U8 => "u8",
+				FK::U16 => "u16",
+				FK::U32 => "u32",
+				FK::U64 => "u64",
+				FK::Fixed => "fixed",
+				FK::LenBytes => "lenbytes",
+			}
+		}
+	}
+
+	#[derive(Clone, Copy, Debug)]
+	pub struct Field {
+		pub off: usize,
+		pub len: usize,
+		pub kind: FK,
+	}
+
+	#[derive(Clone, Debug, Default)]
+	pub struct ReadStats {
+		/// primitive reads attempted
+		pub reads: u64,
+		/// successful ones
+		pub ok: u64,
+		/// successful reads of zero bytes
+		pub zero: u64,
+		pub consumed: u64,
+		/// 0 = unlimited
+		pub budget: u64,
+		pub budget_hit: bool,
+		pub fields: Option<Vec<Field>>,
+	}
+
+	pub struct CR<'s, R: Reader> {
+		inner: R,
+		st: &'s mut ReadStats,
+	}
+
+	impl<'s, R: Reader> CR<'s, R> {
+		fn pre(&mut self) -> Result<(), ser::Error> {
+			self.st.reads += 1;
+			if self.st.budget != 0 && self.st.reads > self.st.budget {
+				self.st.budget_hit = true;
+				return Err(ser::Error::TooLargeReadErr);
+			}
+			Ok(())
+		}
+		fn post<T>(&mut self, r: Result<T, ser::Error>, w: impl Fn(&T) -> usize, kind: FK) -> Result<T, ser::Error> {
+			if let Ok(v) = &r {
+				let w = w(v);
+				self.st.ok += 1;
+				if w == 0 {
+					self.st.zero += 1;
+				}
+				if let Some(f) = &mut self.st.fields {
+					f.push(Field { off: self.st.consumed as usize, len: w, kind });
+				}
+				self.st.consumed += w as u64;
+			}
+			r
+		}
+	}
+
+	impl<'s, R: Reader> Reader for CR<'s, R> {
+		fn deserialization_mode(&self) -> DeserializationMode {
+			self.inner.deserialization_mode()
+		}
+		fn read_u8(&mut self) -> Result<u8, ser::Error> {
+			self.pre()?;
+			let r = self.inner.read_u8();
+			self.post(r, |_| 1, FK::U8)
+		}
+		fn read_u16(&mut self) -> Result<u16, ser::Error> {
+			self.pre()?;
+			let r = self.inner.read_u16();
+			self.post(r, |_| 2, FK::U16)
+		}
+		fn read_u32(&mut self) -> Result<u32, ser::Error> {
+			self.pre()?;
+			let r = self.inner.read_u32();
+			self.post(r, |_| 4, FK::U32)
+		}
+		fn read_u64(&mut self) -> Result<u64, ser::Error> {
+			self.pre()?;
+			let r = self.inner.read_u64();
+			self.post(r, |_| 8, FK::U64)
+		}
+		fn read_i32(&mut self) -> Result<i32, ser::Error> {
+			self.pre()?;
+			let r = self.inner.read_i32();
+			self.post(r, |_| 4, FK::U32)
+		}
+		fn read_i64(&mut self) -> Result<i64, ser::Error> {
+			self.pre()?;
+			let r = self.inner.read_i64();
+			self.post(r, |_| 8, FK::U64)
+		}
+		fn read_bytes_len_prefix(&mut self) -> Result<Vec<u8>, ser::Error> {
+			self.pre()?;
+			let r = self.inner.read_bytes_len_prefix();
+			self.post(r, |v| 8 + v.len(), FK::LenBytes)
+		}
+		fn read_fixed_bytes(&mut self, length: usize) -> Result<Vec<u8>, ser::Error> {
+			self.pre()?;
+			let r = self.inner.read_fixed_bytes(length);
+			self.post(r, |v| v.len(), FK::Fixed)
+		}
+		fn expect_u8(&mut self, val: u8) -> Result<u8, ser::Error> {
+			self.pre()?;
+			let r = self.inner.expect_u8(val);
+			self.post(r, |_| 1, FK::U8)
+		}
+		fn protocol_version(&self) -> ProtocolVersion {
+			self.inner.protocol_version()
+		}
+	}
+
+	/// `BufReader::body::<T>()` / `ser::deserialize::<T>` through the counting reader
+	pub fn rd<T: Readable>(data: &[u8], version: u32, flags: u8, st: &mut ReadStats) -> Result<T, ser::Error> {
+		let mut s: &[u8] = data;
+		if flags & F_BIN != 0 {
+			let mut r = CR { inner: BinReader::new(&mut s, ProtocolVersion(version), DeserializationMode::default()), st };
+			T::read(&mut r)
+		} else {
+			let mut r = CR { inner: BufReader::new(&mut s, ProtocolVersion(version)), st };
+			T::read(&mut r)
+		}
+	}
+
+	// ------------------------------------------------------------------ outcome
+
+	#[derive(Clone, Debug, Default)]
+	pub struct Outcome {
+		pub decoded: bool,
+		pub err: String,
+		pub post_ok: u32,
+		pub post_err: u32,
+		/// post-decode checks skipped because of a known-finding precondition
+		pub excluded: u32,
+		/// messages returned by Codec::read
+		pub msgs: u32,
+		pub calls: u64,
+		/// Codec::read kept returning without reaching the end of the input
+		pub spin: bool,
+		pub harness_err: Option<String>,
+		pub st: ReadStats,
+	}
+
+	thread_local! {
+		static STAGE: Cell<&'static str> = Cell::new("decode");
+	}
+	static MARK: AtomicBool = AtomicBool::new(false);
+
+	/// let `set_stage` write "S <stage>" marker lines to stderr (worker processes)
+	pub fn mark_stages(on: bool) {
+		MARK.store(on, Ordering::Relaxed);
+	}
+
+	pub fn stage() -> &'static str {
+		STAGE.with(|s| s.get())
+	}
+
+	pub fn set_stage(s: &'static str) {
+		let changed = STAGE.with(|c| {
+			let ch = c.get() != s;
+			c.set(s);
+			ch
+		});
+		if changed && MARK.load(Ordering::Relaxed) {
+			use std::io::Write;
+			let _ = writeln!(std::io::stderr(), "S {}", s);
+		}
+	}
+
+	fn tally(out: &mut Outcome, ok: bool) {
+		if ok {
+			out.post_ok += 1;
+		} else {
+			out.post_err += 1;
+		}
+	}
+
+	pub fn err_name<E: std::fmt::Debug>(e: &E) -> String {
+		let s = format!("{:?}", e);
+		s.split(|c: char| c == '(' || c == '{' || c == ' ').next().unwrap_or("").to_string()
+	}
+
+	// ------------------------------------------------------------------ deterministic synthetic leaves and the MMR universe
+
+	pub fn mix(x: u64) -> u64 {
+		let mut z = x.wrapping_add(0x9e3779b97f4a7c15);
+		z = (z ^ (z >> 30)).wrapping_mul(0xbf58476d1ce4e5b9);
+		z = (z ^ (z >> 27)).wrapping_mul(0x94d049bb133111eb);
+		z ^ (z >> 31)
+	}
+
+	pub fn fill(seed: u64, n: usize) -> Vec<u8> {
+		let mut out = Vec::with_capacity(n + 8);
+		let mut s = seed;
+		while out.len() < n {
+			s = mix(s);
+			out.extend_from_slice(&s.to_be_bytes());
+		}
+		out.truncate(n);
+		out
+	}
+
+	pub fn mk_hash(seed: u64) -> Hash {
+		Hash::from_vec(&fill(seed ^ 0x4a11, 32))
+	}
+
+	pub fn mk_commit(seed: u64) -> Commitment {
+		let mut b = fill(seed ^ 0xc0, 33);
+		b[0] = 0x08 | (b[0] & 1);
+		Commitment::from_vec(b)
+	}
+
+	pub fn mk_rproof(seed: u64) -> RangeProof {
+		let b = fill(seed ^ 0x9f, 675);
+		let mut proof = [0u8; 675];
+		proof.copy_from_slice(&b);
+		RangeProof { proof, plen: 675 }
+	}
+
+	pub fn mk_sig(seed: u64) -> Signature {
+		let b = fill(seed ^ 0x51, 64);
+		let mut a = [0u8; 64];
+		a.copy_from_slice(&b);
+		Signature::from_raw_data(&a).expect("sig")
+	}
+
+	/// kind: 0 plain, 1 coinbase, 2 height locked, 3 NRD
+	pub fn mk_kernel(seed: u64, kind: u8) -> TxKernel {
+		let x = mix(seed);
+		let fee = FeeFields::new((x >> 3) % 16, 1 + (x >> 8) % ((1u64 << 40) - 1)).expect("fee");
+		let features = match kind % 4 {
+			0 => KernelFeatures::Plain { fee },
+			1 => KernelFeatures::Coinbase,
+			2 => KernelFeatures::HeightLocked { fee, lock_height: x.rotate_left(17) },
+			_ => KernelFeatures::NoRecentDuplicate { fee, relative_height: NRDRelativeHeight::new(1 + (x >> 20) % 10080).expect("nrd") },
+		};
+		TxKernel { features, excess: mk_commit(seed ^ 0xe7), excess_sig: mk_sig(seed) }
+	}
+
+	pub fn mk_outid(seed: u64) -> OutputIdentifier {
+		let f = if mix(seed) & 1 == 1 { OutputFeatures::Coinbase } else { OutputFeatures::Plain };
+		OutputIdentifier::new(f, &mk_commit(seed ^ 0x0d))
+	}
+
+	pub fn mk_output(seed: u64, cb: bool) -> Output {
+		Output::new(if cb { OutputFeatures::Coinbase } else { OutputFeatures::Plain }, mk_commit(seed ^ 0x0d), mk_rproof(seed))
+	}
+
+	pub fn mk_input(seed: u64, cb: bool) -> Input {
+		Input::new(if cb { OutputFeatures::Coinbase } else { OutputFeatures::Plain }, mk_commit(seed ^ 0x1d))
+	}
+
+	pub struct Tree<T: PMMRable> {
+		pub n: u64,
+		pub size: u64,
+		pub root: Hash,
+		pub backend: VecBackend<T>,
+	}
+
+	pub struct BmTree {
+		pub chunks: u64,
+		pub size: u64,
+		pub root: Hash,
+		pub acc: BitmapAccumulator,
+		/// size of the output MMR the bitmap belongs to (only used as a hash index)
+		pub out_size: u64,
+	}
+
+	pub struct Uni {
+		pub kern: Vec<Tree<TxKernel>>,
+		pub outid: Vec<Tree<OutputIdentifier>>,
+		pub rproof: Vec<Tree<RangeProof>>,
+		pub bitmap: Vec<BmTree>,
+		/// the "other root" of validate_with
+		pub other: Hash,
+	}
+
+	pub const TREE_LEAVES: [u64; 16] = [1, 2, 3, 4, 5, 6, 7, 8, 9, 11, 15, 16, 17, 23, 32, 33];
+	pub const BITMAP_CHUNKS: [u64; 9] = [1, 2, 3, 4, 5, 8, 64, 65, 130];
+
+	fn build_tree<T: PMMRable>(n: u64, leaf: impl Fn(u64) -> T) -> Tree<T> {
+		let mut backend: VecBackend<T> = VecBackend::new();
+		let size = {
+			let mut p = PMMR::<T, _>::new(&mut backend);
+			for i in 0..n {
+				p.push(&leaf(i)).expect("push");
+			}
+			p.unpruned_size()
+		};
+		let root = ReadonlyPMMR::<T, _>::at(&backend, size).root().expect("root");
+		Tree { n, size, root, backend }
+	}
+
+	/// bit k of chunk c of the accumulator with `chunks` chunks
+	pub fn bm_bit(chunks: u64, c: u64, k: u64) -> bool {
+		let x = mix(chunks * 1_000_003 + c * 1031 + k);
+		match (chunks + c) % 3 {
+			0 => x % 97 == 0,
+			1 => x % 97 != 0,
+			_ => x & 1 == 1,
+		}
+	}
+
+	fn build_bm(chunks: u64) -> BmTree {
+		let mut acc = BitmapAccumulator::new();
+		for c in 0..chunks {
+			let mut ch = BitmapChunk::new();
+			for k in 0..1024u64 {
+				if bm_bit(chunks, c, k) {
+					ch.set(k, true);
+				}
+			}
+			acc.append_chunk(ch).expect("append chunk");
+		}
+		let size = acc.readonly_pmmr().unpruned_size();
+		let root = acc.root();
+		BmTree { chunks, size, root, acc, out_size: pmmr::insertion_to_pmmr_index(chunks * 1024 - 3) }
+	}
+
+	pub fn uni() -> &'static Uni {
+		static U: OnceLock<Uni> = OnceLock::new();
+		U.get_or_init(|| Uni {
+			kern: TREE_LEAVES.iter().map(|&n| build_tree(n, |i| mk_kernel(n * 1000 + i, (i % 4) as u8))).collect(),
+			outid: TREE_LEAVES.iter().map(|&n| build_tree(n, |i| mk_outid(n * 1000 + i))).collect(),
+			rproof: TREE_LEAVES.iter().map(|&n| build_tree(n, |i| mk_rproof(n * 1000 + i))).collect(),
+			bitmap: BITMAP_CHUNKS.iter().map(|&c| build_bm(c)).collect(),
+			other: mk_hash(77),
+		})
+	}
+
+	/// leaf-index bitmaps a prunable MMR with n leaves is validated with
+	pub fn bitmaps(n: u64) -> Vec<Bitmap> {
+		let mut all = Bitmap::new();
+		let mut alt = Bitmap::new();
+		let mut rnd = Bitmap::new();
+		for i in 0..n {
+			all.add(i as u32);
+			if (i / 2) % 2 == 0 {
+				alt.add(i as u32);
+			}
+			if mix(n * 131 + i) % 3 == 0 {
+				rnd.add(i as u32);
+			}
+		}
+		vec![all, Bitmap::new(), alt, rnd]
+	}
+
+	pub fn combined_root(root: Hash, other: Hash, other_is_left: bool, hash_last_pos: u64) -> Hash {
+		if other_is_left {
+			(other, root).hash_with_index(hash_last_pos)
+		} else {
+			(root, other).hash_with_index(hash_last_pos)
+		}
+	}
+
+	/// does the identifier address at least one leaf of an MMR with n leaves
+	/// (computed as the release build computes it: wrapping shift and multiplication)
+	pub fn segment_exists(id: &SegmentIdentifier, n_leaves: u64) -> bool {
+		let cap = 1u64.wrapping_shl(id.height as u32);
+		let off = id.idx.wrapping_mul(cap);
+		n_leaves > off
+	}
+
+	// ------------------------------------------------------------------ post-decode stateless checks
+
+	fn post_tx(tx: Transaction, out: &mut Outcome) {
+		set_stage("Transaction::validate_read");
+		tally(out, tx.validate_read().is_ok());
+		set_stage("TransactionBody::validate_read");
+		for w in [Weighting::AsTransaction, Weighting::AsBlock, Weighting::AsLimitedTransaction(100), Weighting::NoLimit] {
+			tally(out, tx.body.validate_read(w).is_ok());
+		}
+	}
+
+	fn post_body(b: TransactionBody, out: &mut Outcome) {
+		set_stage("TransactionBody::validate_read");
+		for w in [Weighting::AsTransaction, Weighting::AsBlock, Weighting::AsLimitedTransaction(100), Weighting::NoLimit] {
+			tally(out, b.validate_read(w).is_ok());
+		}
+	}
+
+	fn post_block(b: Block, out: &mut Outcome) {
+		set_stage("Block::validate_read");
+		tally(out, b.validate_read().is_ok());
+	}
+
+	fn post_compact(cb: CompactBlock, out: &mut Outcome) {
+		// what the node does with a compact block that has no short ids (or an empty pool)
+		set_stage("Block::hydrate_from");
+		match Block::hydrate_from(cb, &[]) {
+			Ok(b) => {
+				tally(out, true);
+				post_block(b, out);
+			}
+			Err(_) => tally(out, false),
+		}
+	}
+
+	fn post_segment<T: PMMRIndexHashable>(seg: &Segment<T>, trees: &[(u64, u64, Hash)], prunable: bool, flags: u8, out: &mut Outcome) {
+		let other = uni().other;
+		let id = seg.identifier();
+		for &(n, size, root) in trees {
+			let (beyond, high) = (!segment_exists(&id, n), id.height >= 64);
+			// a directed high-identifier case still skips the MMRs it lies beyond, so that it reaches its own defect
+			if if flags & F_NOEXCL == 0 { beyond || high } else { beyond && high } {
+				// known findings: Segment::root unwraps None for an identifier beyond the last segment,
+				// and pops an empty stack when height >= 64 makes `1 << height` wrap
+				out.excluded += 1;
+				continue;
+			}
+			set_stage("Segment::validate");
+			tally(out, seg.validate(size, None, root).is_ok());
+			set_stage("Segment::validate_with");
+			tally(out, seg.validate_with(size, None, combined_root(root, other, false, size), size, other, false).is_ok());
+			if prunable {
+				for bm in bitmaps(n) {
+					set_stage("Segment::validate");
+					tally(out, seg.validate(size, Some(&bm), root).is_ok());
+					set_stage("Segment::validate_with");
+					tally(out, seg.validate_with(size, Some(&bm), combined_root(root, other, false, size), size, other, false).is_ok());
+				}
+			}
+		}
+	}
+
+	fn trees_of<T: PMMRable>(t: &[Tree<T>]) -> Vec<(u64, u64, Hash)> {
+		t.iter().map(|t| (t.n, t.size, t.root)).collect()
+	}
+
+	fn post_bitmap(bs: BitmapSegment, flags: u8, out: &mut Outcome) {
+		// what Protocol::consume does with a received bitmap segment
+		set_stage("BitmapSegment::into_segment");
+		let seg = match bs.into_segment() {
+			Ok(s) => {
+				tally(out, true);
+				s
+			}
+			Err(_) => {
+				tally(out, false);
+				return;
+			}
+		};
+		let u = uni();
+		let id = seg.identifier();
+		for bt in &u.bitmap {
+			if !segment_exists(&id, bt.chunks) && flags & F_NOEXCL == 0 {
+				out.excluded += 1;
+				continue;
+			}
+			// Desegmenter::add_bitmap_segment
+			set_stage("Segment::validate_with");
+			let root = combined_root(bt.root, u.other, true, bt.out_size);
+			tally(out, seg.validate_with(bt.size, None, root, bt.out_size, u.other, true).is_ok());
+		}
+	}
+
+	fn post_segproof(p: SegmentProof, out: &mut Outcome) {
+		// parameters as Segment::validate derives them from an identifier and an MMR size
+		let u = uni();
+		set_stage("SegmentProof::validate");
+		for t in &u.kern {
+			for h in 0..4u8 {
+				let count = SegmentIdentifier::count_segments_required(t.size, h) as u64;
+				for idx in 0..count.min(4) {
+					let id = SegmentIdentifier { height: h, idx };
+					let (first, last) = id.segment_pos_range(t.size);
+					tally(out, p.validate(t.size, t.root, first, last, u.other, last + 1).is_ok());
+					tally(out, p.validate_with(t.size, t.root, first, last, u.other, last + 1, t.size, u.other, false).is_ok());
+				}
+			}
+		}
+	}
+
+	fn post_merkle(p: MerkleProof, out: &mut Outcome) {
+		// a path of an MMR with fewer than 2^64 nodes has at most 64 + 64 entries
+		if p.path.len() > 128 {
+			return;
+		}
+		set_stage("MerkleProof::verify");
+		let elem = mk_kernel(5, 0);
+		let root = uni().other;
+		for pos in [0u64, 1, 3, p.mmr_size.saturating_sub(1), p.mmr_size] {
+			tally(out, p.verify(root, &elem, pos).is_ok());
+		}
+		// against the MMR of that size, for each of its leaves (an honest proof verifies for its own leaf)
+		for t in uni().kern.iter().filter(|t| t.size == p.mmr_size) {
+			for i in 0..t.n {
+				let pos = pmmr::insertion_to_pmmr_index(i);
+				tally(out, p.verify(t.root, &mk_kernel(t.n * 1000 + i, (i % 4) as u8), pos).is_ok());
+			}
+		}
+	}
+
+	// ------------------------------------------------------------------ framed entry points
+
+	fn rm_case<T: Readable>(version: u32, data: &[u8], ty: Type, out: &mut Outcome) {
+		let mut s: &[u8] = data;
+		let r = read_message::<T, _>(&mut s, ProtocolVersion(version), ty);
+		let used = data.len() - s.len();
+		out.st.consumed = used as u64;
+		out.st.reads = 1;
+		if used >= 11 {
+			out.st.ok = 1;
+		}
+		match r {
+			Ok(_) => out.decoded = true,
+			Err(e) => out.err = err_name(&e),
+		}
+	}
+
+	fn codec_case(version: u32, data: &[u8], out: &mut Outcome) {
+		use grin_p2p::verif_export::Codec;
+		use std::io::Write;
+		use std::net::{Shutdown, TcpListener, TcpStream};
+		thread_local! {
+			static LISTENER: std::cell::RefCell<Option<TcpListener>> = std::cell::RefCell::new(None);
+		}
+		let pair = LISTENER.with(|l| -> std::io::Result<(TcpStream, TcpStream)> {
+			let mut l = l.borrow_mut();
+			if l.is_none() {
+				*l = Some(TcpListener::bind("127.0.0.1:0")?);
+			}
+			let lst = l.as_ref().unwrap();
+			let client = TcpStream::connect(lst.local_addr()?)?;
+			let (server, _) = lst.accept()?;
+			Ok((client, server))
+		});
+		let (client, server) = match pair {
+			Ok(p) => p,
+			Err(e) => {
+				out.harness_err = Some(format!("loopback socket: {}", e));
+				return;
+			}
+		};
+		let payload = data.to_vec();
+		let writer = std::thread::spawn(move || {
+			let mut c = client;
+			let _ = c.write_all(&payload);
+			let _ = c.shutdown(Shutdown::Write);
+			c
+		});
+		let mut codec = Codec::new(ProtocolVersion(version), server);
+		let max_calls = data.len() as u64 + 16;
+		loop {
+			let (r, n) = codec.read();
+			out.calls += 1;
+			out.st.consumed += n;
+			match r {
+				Ok(_) => {
+					out.msgs += 1;
+					out.decoded = true;
+				}
+				Err(e) => {
+					out.err = err_name(&e);
+					break;
+				}
+			}
+			if out.calls > max_calls {
+				out.spin = true;
+				break;
+			}
+		}
+		out.st.reads = out.calls;
+		out.st.ok = out.msgs as u64 + if out.st.consumed >= 11 { 1 } else { 0 };
+		drop(codec);
+		let _ = writer.join();
+	}
+
+	// ------------------------------------------------------------------ dispatch
+
+	pub fn set_chain(flags: u8) {
+		global::set_local_chain_type(if flags & F_MAINNET != 0 { ChainTypes::Mainnet } else { ChainTypes::AutomatedTesting });
+	}
+
+	/// Decode `data` at entry point `entry` and run the stateless post-decode
+	/// checks on the value. Panics propagate to the caller.
+	pub fn decode_case(entry: u16, version: u32, flags: u8, data: &[u8], out: &mut Outcome) {
+		set_chain(flags);
+		set_stage("decode");
+		macro_rules! body {
+			($T:ty) => {
+				body!($T, |_x: $T, _o: &mut Outcome| {})
+			};
+			($T:ty, $post:expr) => {{
+				match rd::<$T>(data, version, flags, &mut out.st) {
+					Ok(x) => {
+						out.decoded = true;
+						let f: &dyn Fn($T, &mut Outcome) = &$post;
+						f(x, out);
+					}
+					Err(e) => out.err = err_name(&e),
+				}
+			}};
+		}
+		let u = uni();
+		match entry {
+			E_PING => body!(Ping),
+			E_PONG => body!(Pong),
+			E_BAN => body!(BanReason),
+			E_HASH => body!(Hash),
+			E_TX => body!(Transaction, post_tx),
+			E_UBLOCK => body!(UntrustedBlock, |b: UntrustedBlock, o: &mut Outcome| post_block(b.into(), o)),
+			E_UCOMPACT => body!(UntrustedCompactBlock, |b: UntrustedCompactBlock, o: &mut Outcome| post_compact(b.into(), o)),
+			E_LOCATOR => body!(Locator),
+			E_UHEADER => body!(UntrustedBlockHeader),
+			E_GETPEERS => body!(GetPeerAddrs),
+			E_PEERADDRS => body!(PeerAddrs),
+			E_TXHSREQ => body!(TxHashSetRequest),
+			E_TXHSARCH => body!(TxHashSetArchive),
+			E_SEGREQ => body!(SegmentRequest),
+			E_BITMAPRESP => body!(OutputBitmapSegmentResponse, |r: OutputBitmapSegmentResponse, o: &mut Outcome| post_bitmap(r.segment, flags, o)),
+			E_OUTRESP => body!(OutputSegmentResponse, |r: OutputSegmentResponse, o: &mut Outcome| post_segment(
+				&r.response.segment,
+				&trees_of(&u.outid),
+				true,
+				flags,
+				o
+			)),
+			E_RPRESP => {
+				body!(SegmentResponse<RangeProof>, |r: SegmentResponse<RangeProof>, o: &mut Outcome| post_segment(&r.segment, &trees_of(&u.rproof), true, flags, o))
+			}
+			E_KERNRESP => {
+				body!(SegmentResponse<TxKernel>, |r: SegmentResponse<TxKernel>, o: &mut Outcome| post_segment(&r.segment, &trees_of(&u.kern), false, flags, o))
+			}
+			E_HAND => body!(Hand),
+			E_SHAKE => body!(Shake),
+			E_PEERERR => body!(PeerError),
+			E_HEADER => body!(BlockHeader),
+			E_BLOCK => body!(Block, post_block),
+			E_COMPACT => body!(CompactBlock, post_compact),
+			E_BODY => body!(TransactionBody, post_body),
+			E_MSGHDR => body!(MsgHeaderWrapper),
+			E_RM_HAND => rm_case::<Hand>(version, data, Type::Hand, out),
+			E_RM_SHAKE => rm_case::<Shake>(version, data, Type::Shake, out),
+			E_CODEC => codec_case(version, data, out),
+			E_MERKLE => body!(MerkleProof, post_merkle),
+			E_MERKLE_HEX => match std::str::from_utf8(data) {
+				Ok(s) => {
+					set_stage("MerkleProof::from_hex");
+					out.st.reads = 1;
+					match MerkleProof::from_hex(s) {
+						Ok(p) => {
+							out.decoded = true;
+							out.st.ok = 1;
+							post_merkle(p, out);
+						}
+						Err(_) => out.err = "from_hex-err".into(),
+					}
+				}
+				Err(_) => out.harness_err = Some("text entry fed with invalid UTF-8".into()),
+			},
+			E_UTIL_HEX => match std::str::from_utf8(data) {
+				Ok(s) => {
+					set_stage("util::from_hex");
+					out.st.reads = 1;
+					match grin_util::from_hex(s) {
+						Ok(b) => {
+							out.decoded = true;
+							if !b.is_empty() {
+								out.st.ok = 1;
+							}
+						}
+						Err(_) => out.err = "from_hex-err".into(),
+					}
+				}
+				Err(_) => out.harness_err = Some("text entry fed with invalid UTF-8".into()),
+			},
+			E_SEG_OUT => body!(Segment<OutputIdentifier>, |s: Segment<OutputIdentifier>, o: &mut Outcome| post_segment(&s, &trees_of(&u.outid), true, flags, o)),
+			E_SEG_RP => body!(Segment<RangeProof>, |s: Segment<RangeProof>, o: &mut Outcome| post_segment(&s, &trees_of(&u.rproof), true, flags, o)),
+			E_SEG_KERN => body!(Segment<TxKernel>, |s: Segment<TxKernel>, o: &mut Outcome| post_segment(&s, &trees_of(&u.kern), false, flags, o)),
+			E_BITMAPSEG => body!(BitmapSegment, |s: BitmapSegment, o: &mut Outcome| post_bitmap(s, flags, o)),
+			E_SEGPROOF => body!(SegmentProof, post_segproof),
+			E_PROOF => body!(Proof),
+			E_POW => body!(ProofOfWork),
+			E_KERNEL => body!(TxKernel),
+			E_OUTPUT => body!(Output),
+			E_OUTID => body!(OutputIdentifier),
+			E_RANGEPROOF => body!(RangeProof),
+			E_INPUT => body!(Input),
+			E_KFEATURES => body!(KernelFeatures),
+			E_PEERADDR => body!(PeerAddr),
+			E_SEGID => body!(SegmentIdentifier),
+			_ => out.harness_err = Some(format!("unknown entry {}", entry)),
+		}
+		set_stage("done");
+	}
 }
 
-pub fn replay(_ctx: &Ctx, _part: &str, _case: &Value) -> PResult {
-	Ok(())
-}
+#[cfg(not(fuzzing))]
+pub use hs::{child, part, replay, run};
 
-pub fn part(_ctx: &Ctx, _part: &str, _seed: u64, _cases: u32) -> Option<(Value, Fail)> {
-	None
-}
+#[cfg(not(fuzzing))]
+#[allow(dead_code)]
+mod hs {
+	use super::dec::*;
+	use crate::engine::*;
+	use crate::world::{init_global, init_thread};
+	use grin_chain::txhashset::{BitmapChunk, BitmapSegment};
+	use grin_core::core::hash::{Hash, Hashed};
+	use grin_core::core::id::ShortIdentifiable;
+	use grin_core::core::merkle_proof::MerkleProof;
+	use grin_core::core::pmmr::{self, ReadablePMMR, ReadonlyPMMR};
+	use grin_core::core::{
+		Block, BlockHeader, HeaderVersion, Inputs, Output, OutputIdentifier, Segment, SegmentIdentifier, SegmentProof, Transaction,
+		TransactionBody, TxKernel,
+	};
+	use grin_core::pow::{Difficulty, Proof, ProofOfWork};
+	use grin_core::ser::{self, PMMRable, ProtocolVersion, Readable, Writeable};
+	use grin_keychain::BlindingFactor;
+	use grin_p2p::msg::{
+		BanReason, GetPeerAddrs, Hand, Headers, Locator, MsgHeader, OutputBitmapSegmentResponse, OutputSegmentResponse, PeerAddrs, PeerError, Ping,
+		Pong, SegmentRequest, SegmentResponse, Shake, TxHashSetArchive, TxHashSetRequest, Type,
+	};
+	use grin_p2p::{Capabilities, PeerAddr, ReasonForBan};
+	use grin_util::secp::pedersen::RangeProof;
+	use grin_util::ToHex;
+	use serde_json::{json, Value};
+	use std::collections::{BTreeMap, HashMap};
+	use std::io::{BufRead, Read, Write};
+	use std::net::{Ipv4Addr, Ipv6Addr, SocketAddr, SocketAddrV4, SocketAddrV6};
+	use std::path::{Path, PathBuf};
+	use std::process::{Child, ChildStdin, Command, Stdio};
+	use std::sync::atomic::{AtomicUsize, Ordering};
+	use std::sync::{mpsc, Mutex};
+	use std::time::{Duration, Instant};
 
-/// `gv child x C11 <args...>`
-pub fn child(_args: &[String]) -> i32 {
-	2
+	// ------------------------------------------------------------------ oracle constants
+
+	/// a single allocation request may not exceed ALLOC_REQ_BASE + 64 x input length
+	const ALLOC_REQ_BASE: u64 = 4 << 20;
+	/// peak live bytes may not exceed ALLOC_LIVE_BASE + 64 x input length
+	const ALLOC_LIVE_BASE: u64 = 16 << 20;
+	const ALLOC_PER_BYTE: u64 = 64;
+	/// requests above this make the allocator answer null, i.e. the worker aborts quickly
+	const ALLOC_HARD_LIMIT: usize = 256 << 20;
+	/// address-space cap of a worker (peak-live runaways die instead of thrashing the machine)
+	const WORKER_AS_LIMIT: u64 = 6 << 30;
+	const CASE_TIMEOUT: Duration = Duration::from_secs(20);
+	const ALONE_TIMEOUT: Duration = Duration::from_secs(60);
+	const WORKERS: usize = 16;
+
+	/// sensitivity switches (GV_C11_SENS=alloc|reads|hang): deliberately wrong oracle
+	/// expectations / a deliberately hanging worker, to show that the check can fail
+	fn sens(what: &str) -> bool {
+		std::env::var("GV_C11_SENS").map(|v| v == what).unwrap_or(false)
+	}
+	fn env_secs(name: &str, default: Duration) -> Duration {
+		std::env::var(name).ok().and_then(|s| s.parse::<u64>().ok()).map(Duration::from_secs).unwrap_or(default)
+	}
+	fn case_timeout() -> Duration {
+		env_secs("GV_C11_TIMEOUT_S", CASE_TIMEOUT)
+	}
+	fn alone_timeout() -> Duration {
+		env_secs("GV_C11_ALONE_S", ALONE_TIMEOUT)
+	}
+
+	fn alloc_req_limit(len: usize) -> u64 {
+		if sens("alloc") {
+			return 512 + len as u64 / 2;
+		}
+		ALLOC_REQ_BASE + ALLOC_PER_BYTE * len as u64
+	}
+	fn alloc_live_limit(len: usize) -> u64 {
+		ALLOC_LIVE_BASE + ALLOC_PER_BYTE * len as u64
+	}
+	/// primitive reads (successful or not) an honest decoder may perform on an input of this length
+	fn read_limit(len: usize) -> u64 {
+		if sens("reads") {
+			return len as u64 / 8;
+		}
+		2 * len as u64 + 64
+	}
+
+	// ------------------------------------------------------------------ small helpers
+
+	#[derive(Clone)]
+	pub struct Rng(u64);
+
+	impl Rng {
+		pub fn new(seed: u64) -> Rng {
+			Rng(mix(seed ^ 0xc11c11))
+		}
+		pub fn next(&mut self) -> u64 {
+			self.0 = self.0.wrapping_add(0x9e3779b97f4a7c15);
+			mix(self.0)
+		}
+		pub fn below(&mut self, n: u64) -> u64 {
+			if n == 0 {
+				0
+			} else {
+				self.next() % n
+			}
+		}
+		pub fn bytes(&mut self, n: usize) -> Vec<u8> {
+			let mut v = Vec::with_capacity(n + 8);
+			while v.len() < n {
+				v.extend_from_slice(&self.next().to_be_bytes());
+			}
+			v.truncate(n);
+			v
+		}
+		pub fn pick<'a, T>(&mut self, v: &'a [T]) -> &'a T {
+			&v[self.below(v.len() as u64) as usize]
+		}
+	}
+
+	fn hex(b: &[u8]) -> String {
+		b.to_vec().to_hex()
+	}
+
+	fn enc<T: Writeable>(x: &T, v: u32) -> Option<Vec<u8>> {
+		ser::ser_vec(x, ProtocolVersion(v)).ok()
+	}
+
+	fn rel_path(loc: &str) -> String {
+		// "/repo/core/src/x.rs:12" -> "core/src/x.rs:12"; std locations -> "std:<file>"
+		if let Some(r) = loc.strip_prefix("/repo/") {
+			return r.to_string();
+		}
+		if loc.starts_with("/rustc/") || loc.contains("/library/") {
+			let f = loc.rsplit('/').next().unwrap_or(loc);
+			let f = f.split(':').next().unwrap_or(f);
+			return format!("std:{}", f);
+		}
+		if let Some(i) = loc.find("/registry/src/") {
+			let rest = &loc[i + "/registry/src/".len()..];
+			return rest.splitn(2, '/').nth(1).unwrap_or(rest).to_string();
+		}
+		loc.to_string()
+	}
+
+	// ------------------------------------------------------------------ cases
+
+	#[derive(Clone, Debug)]
+	pub struct Case {
+		pub entry: u16,
+		pub version: u32,
+		pub flags: u8,
+		pub data: Vec<u8>,
+		/// mutation kind
+		pub kind: &'static str,
+		/// field class the mutation touched
+		pub fclass: String,
+		/// label of the honest object the case derives from
+		pub origin: String,
+		/// Some(name) for the directed case of a known finding
+		pub directed: Option<&'static str>,
+	}
+
+	impl Case {
+		fn text(&self) -> bool {
+			entry(self.entry).map(|e| e.text).unwrap_or(false)
+		}
+		pub fn to_json(&self) -> Value {
+			let mut v = json!({
+				"entry": entry_name(self.entry),
+				"version": self.version,
+				"flags": self.flags,
+				"mutation": self.kind,
+				"field": self.fclass,
+				"origin": self.origin,
+				"len": self.data.len(),
+			});
+			if self.text() {
+				v["text"] = json!(String::from_utf8_lossy(&self.data).to_string());
+			}
+			v["hex"] = json!(hex(&self.data));
+			if let Some(d) = self.directed {
+				v["directed"] = json!(d);
+			}
+			v
+		}
+		pub fn from_json(v: &Value) -> Result<Case, Fail> {
+			let name = v["entry"].as_str().unwrap_or("");
+			let e = entry_by_name(name).ok_or_else(|| Fail::new("harness:replay-entry", format!("unknown entry {:?}", name)))?;
+			let data = match v["hex"].as_str() {
+				Some(h) => grin_util::from_hex(h).map_err(|e| Fail::new("harness:replay-hex", e))?,
+				None => v["text"].as_str().unwrap_or("").as_bytes().to_vec(),
+			};
+			Ok(Case {
+				entry: e.id,
+				version: v["version"].as_u64().unwrap_or(1) as u32,
+				flags: v["flags"].as_u64().unwrap_or(0) as u8,
+				data,
+				kind: "replay",
+				fclass: String::new(),
+				origin: v["origin"].as_str().unwrap_or("").to_string(),
+				directed: None,
+			})
+		}
+	}
+
+	// ------------------------------------------------------------------ worker process: `gv child x C11 worker`
+
+	fn read_exact_or_eof(r: &mut impl Read, buf: &mut [u8]) -> std::io::Result<bool> {
+		let mut got = 0;
+		while got < buf.len() {
+			let n = r.read(&mut buf[got..])?;
+			if n == 0 {
+				return Ok(false);
+			}
+			got += n;
+		}
+		Ok(true)
+	}
+
+	fn run_in_worker(entry: u16, version: u32, flags: u8, data: &[u8]) -> Value {
+		let mut out = Outcome::default();
+		out.st.budget = 4 * data.len() as u64 + 4096;
+		if sens("hang") && entry == E_PING && data == b"HANG" {
+			loop {
+				std::thread::sleep(Duration::from_secs(1));
+			}
+		}
+		let t0 = Instant::now();
+		alloc::start(ALLOC_HARD_LIMIT);
+		let r = catch(|| decode_case(entry, version, flags, data, &mut out));
+		let (largest, peak) = alloc::stop();
+		let us = t0.elapsed().as_micros() as u64;
+		let stage_at_end = stage();
+		let (status, loc, msg) = match &r {
+			Ok(()) => (if out.decoded { "ok" } else { "err" }, String::new(), String::new()),
+			Err(f) => ("panic", f.sig.trim_start_matches("panic@").to_string(), truncate(&f.msg, 300)),
+		};
+		json!({
+			"s": status, "e": out.err, "loc": loc, "msg": msg, "stage": stage_at_end,
+			"lg": largest, "pk": peak, "r": out.st.reads, "ok": out.st.ok, "z": out.st.zero, "bh": out.st.budget_hit,
+			"po": out.post_ok, "pe": out.post_err, "ex": out.excluded, "msgs": out.msgs, "calls": out.calls, "spin": out.spin,
+			"he": out.harness_err, "us": us,
+		})
+	}
+
+	fn worker_main() -> i32 {
+		init_global();
+		unsafe {
+			let lim = libc::rlimit { rlim_cur: WORKER_AS_LIMIT, rlim_max: WORKER_AS_LIMIT };
+			libc::setrlimit(libc::RLIMIT_AS, &lim);
+		}
+		let _ = uni();
+		mark_stages(true);
+		let stdin = std::io::stdin();
+		let mut inp = stdin.lock();
+		let stdout = std::io::stdout();
+		let mut outp = stdout.lock();
+		loop {
+			let mut head = [0u8; 11];
+			match read_exact_or_eof(&mut inp, &mut head) {
+				Ok(true) => {}
+				_ => return 0,
+			}
+			let len = u32::from_be_bytes([head[0], head[1], head[2], head[3]]) as usize;
+			let entry = u16::from_be_bytes([head[4], head[5]]);
+			let version = u32::from_be_bytes([head[6], head[7], head[8], head[9]]);
+			let flags = head[10];
+			let mut data = vec![0u8; len];
+			if !matches!(read_exact_or_eof(&mut inp, &mut data), Ok(true)) {
+				return 0;
+			}
+			let _ = writeln!(std::io::stderr(), "C {} {}", entry, len);
+			let v = run_in_worker(entry, version, flags, &data);
+			if writeln!(outp, "{}", v).is_err() || outp.flush().is_err() {
+				return 0;
+			}
+		}
+	}
+
+	/// `gv child x C11 <args...>`
+	pub fn child(args: &[String]) -> i32 {
+		match args.first().map(|s| s.as_str()) {
+			Some("worker") => worker_main(),
+			Some("gen-corpus") => match args.get(1) {
+				Some(dir) => gen_corpus_main(Path::new(dir)),
+				None => 2,
+			},
+			_ => 2,
+		}
+	}
+
+	// ------------------------------------------------------------------ parent side of a worker
+
+	pub struct Worker {
+		child: Child,
+		stdin: Option<ChildStdin>,
+		rx: mpsc::Receiver<String>,
+		errfile: PathBuf,
+	}
+
+	pub enum Res {
+		Line(Value),
+		Died { signal: Option<i32>, code: Option<i32>, stderr: String },
+		Timeout,
+	}
+
+	static WORKER_SEQ: AtomicUsize = AtomicUsize::new(0);
+
+	impl Worker {
+		pub fn spawn(dir: &Path) -> HResult<Worker> {
+			let n = WORKER_SEQ.fetch_add(1, Ordering::SeqCst);
+			let errfile = dir.join(format!("worker-{}.err", n));
+			let ef = std::fs::File::create(&errfile)?;
+			let mut child = Command::new(std::env::current_exe()?)
+				.args(["child", "x", "C11", "worker"])
+				.env("RUST_BACKTRACE", "0")
+				.stdin(Stdio::piped())
+				.stdout(Stdio::piped())
+				.stderr(Stdio::from(ef))
+				.spawn()?;
+			let stdin = child.stdin.take();
+			let stdout = child.stdout.take().ok_or_else(|| HarnessError("no stdout".into()))?;
+			let (tx, rx) = mpsc::channel();
+			std::thread::spawn(move || {
+				let mut r = std::io::BufReader::new(stdout);
+				loop {
+					let mut line = String::new();
+					match r.read_line(&mut line) {
+						Ok(0) | Err(_) => break,
+						Ok(_) => {
+							if tx.send(line).is_err() {
+								break;
+							}
+						}
+					}
+				}
+			});
+			Ok(Worker { child, stdin, rx, errfile })
+		}
+
+		fn stderr_tail(&self) -> String {
+			let s = std::fs::read(&self.errfile).unwrap_or_default();
+			let from = s.len().saturating_sub(6000);
+			String::from_utf8_lossy(&s[from..]).to_string()
+		}
+
+		fn died(&mut self) -> Res {
+			use std::os::unix::process::ExitStatusExt;
+			self.stdin = None;
+			let st = self.child.wait().ok();
+			Res::Died { signal: st.and_then(|s| s.signal()), code: st.and_then(|s| s.code()), stderr: self.stderr_tail() }
+		}
+
+		pub fn run(&mut self, c: &Case, timeout: Duration) -> Res {
+			let mut frame = Vec::with_capacity(c.data.len() + 11);
+			frame.extend_from_slice(&(c.data.len() as u32).to_be_bytes());
+			frame.extend_from_slice(&c.entry.to_be_bytes());
+			frame.extend_from_slice(&c.version.to_be_bytes());
+			frame.push(c.flags);
+			frame.extend_from_slice(&c.data);
+			let wrote = match self.stdin.as_mut() {
+				Some(s) => s.write_all(&frame).and_then(|_| s.flush()).is_ok(),
+				None => false,
+			};
+			if !wrote {
+				return self.died();
+			}
+			match self.rx.recv_timeout(timeout) {
+				Ok(line) => match serde_json::from_str::<Value>(&line) {
+					Ok(v) => Res::Line(v),
+					Err(_) => Res::Line(json!({"s": "err", "he": format!("unparsable worker line {:?}", truncate(&line, 100))})),
+				},
+				Err(mpsc::RecvTimeoutError::Disconnected) => self.died(),
+				Err(mpsc::RecvTimeoutError::Timeout) => {
+					let _ = self.child.kill();
+					let _ = self.child.wait();
+					self.stdin = None;
+					Res::Timeout
+				}
+			}
+		}
+
+		pub fn alive(&self) -> bool {
+			self.stdin.is_some()
+		}
+	}
+
+	impl Drop for Worker {
+		fn drop(&mut self) {
+			self.stdin = None;
+			let _ = self.child.kill();
+			let _ = self.child.wait();
+		}
+	}
+
+	// ------------------------------------------------------------------ oracle on one result
+
+	/// label used in signatures for a panic location
+	fn panic_label(loc: &str, stage: &str) -> String {
+		let file = loc.rsplitn(2, ':').nth(1).unwrap_or(loc);
+		match file {
+			"core/src/core/pmmr/segment.rs" if stage.starts_with("BitmapSegment") => stage.to_string(),
+			"core/src/core/pmmr/segment.rs" => "Segment::validate".into(),
+			"util/src/hex.rs" => "util::from_hex".into(),
+			"core/src/core/merkle_proof.rs" => "MerkleProof::from_hex".into(),
+			_ => stage.to_string(),
+		}
+	}
+
+	const SIG_MERKLE_ALLOC: &str = "abort:MerkleProof::read:capacity-overflow-or-oom";
+
+	fn last_stage(stderr: &str) -> Option<String> {
+		let mut st = None;
+		for l in stderr.lines() {
+			if let Some(s) = l.strip_prefix("S ") {
+				st = Some(s.trim().to_string());
+			} else if l.starts_with("C ") {
+				st = None;
+			}
+		}
+		st
+	}
+
+	fn merkle_entry(c: &Case) -> bool {
+		c.entry == E_MERKLE || c.entry == E_MERKLE_HEX
+	}
+
+	/// None = the case passes; Some(fail) = violation of C11
+	pub fn judge(c: &Case, res: &Res) -> Option<Fail> {
+		let name = entry_name(c.entry);
+		let len = c.data.len();
+		match res {
+			Res::Timeout => Some(Fail::new(format!("hang:{}", name), format!("{}: no answer within the time limit on an input of {} bytes", name, len))),
+			Res::Died { signal, code, stderr } => {
+				let stage = last_stage(stderr).filter(|s| s != "decode" && s != "done").unwrap_or_else(|| name.to_string());
+				let alloc_fail = stderr.contains("memory allocation of");
+				let what = stderr
+					.lines()
+					.rev()
+					.find(|l| l.contains("memory allocation of") || l.contains("panicked") || l.contains("overflowed its stack"))
+					.or_else(|| stderr.lines().rev().find(|l| !l.starts_with("S ") && !l.starts_with("C ") && !l.trim().is_empty()))
+					.unwrap_or("")
+					.to_string();
+				let kind = if alloc_fail {
+					"capacity-overflow-or-oom".to_string()
+				} else if stderr.contains("overflowed its stack") {
+					"stack-overflow".to_string()
+				} else {
+					match (signal, code) {
+						(Some(s), _) => format!("signal-{}", s),
+						(None, Some(c)) => format!("exit-{}", c),
+						_ => "died".to_string(),
+					}
+				};
+				let sig = if merkle_entry(c) && alloc_fail { SIG_MERKLE_ALLOC.to_string() } else { format!("abort:{}:{}", stage, kind) };
+				Some(Fail::new(
+					sig,
+					format!("{}: the decoding process died (signal {:?}, exit code {:?}) on an input of {} bytes; last words: {}", name, signal, code, len, truncate(&what, 200)),
+				))
+			}
+			Res::Line(v) => {
+				if !v["he"].is_null() {
+					return None;
+				}
+				let stage = v["stage"].as_str().unwrap_or("decode");
+				if v["s"] == "panic" {
+					let loc = rel_path(v["loc"].as_str().unwrap_or("?"));
+					let msg = v["msg"].as_str().unwrap_or("");
+					if merkle_entry(c) && msg.contains("capacity overflow") {
+						return Some(Fail::new(SIG_MERKLE_ALLOC, format!("{}: {} (input of {} bytes)", name, msg, len)));
+					}
+					let st = if stage == "decode" { format!("{}::read", name) } else { stage.to_string() };
+					let label = panic_label(&loc, &st);
+					return Some(Fail::new(format!("panic:{}@{}", label, loc), format!("{} (stage {}): {} on an input of {} bytes", name, stage, msg, len)));
+				}
+				let (lg, pk) = (v["lg"].as_u64().unwrap_or(0), v["pk"].as_u64().unwrap_or(0));
+				if lg > alloc_req_limit(len) || pk > alloc_live_limit(len) {
+					let st = if stage == "decode" || stage == "done" { name.to_string() } else { stage.to_string() };
+					let sig = if merkle_entry(c) {
+						SIG_MERKLE_ALLOC.to_string()
+					} else if c.entry == E_CODEC && frame_overannounce(&c.data) {
+						"overalloc:Codec::read:body-buffered-from-announced-length".to_string()
+					} else if (c.entry == E_RM_HAND || c.entry == E_RM_SHAKE) && frame_overannounce(&c.data) {
+						"overalloc:msg::read_message:body-buffered-from-announced-length".to_string()
+					} else {
+						format!("overalloc:{}", st)
+					};
+					return Some(Fail::new(
+						sig,
+						format!(
+							"{}: input of {} bytes made the decoder request {} bytes at once (limit {}) / hold {} bytes live (limit {})",
+							name,
+							len,
+							lg,
+							alloc_req_limit(len),
+							pk,
+							alloc_live_limit(len)
+						),
+					));
+				}
+				if v["spin"] == true {
+					return Some(Fail::new(format!("spin:{}", name), format!("{}: {} calls on {} bytes without reaching an error or the end", name, v["calls"], len)));
+				}
+				let reads = v["r"].as_u64().unwrap_or(0);
+				if v["bh"] == true || (c.entry != E_CODEC && reads > read_limit(len)) {
+					return Some(Fail::new(
+						format!("reads-unbounded:{}", name),
+						format!("{}: {} primitive reads on an input of {} bytes (limit {})", name, reads, len, read_limit(len)),
+					));
+				}
+				None
+			}
+		}
+	}
+
+	// ------------------------------------------------------------------ honest values (generators)
+
+	fn g_header(r: &mut Rng, mainnet: bool) -> BlockHeader {
+		let n = if mainnet { 42 } else { 8 };
+		let eb: u8 = if mainnet { 29 + r.below(4) as u8 } else { 10 + r.below(22) as u8 };
+		let mask = (1u64 << eb) - 1;
+		let mut nonces: Vec<u64> = (0..n).map(|_| r.next() & mask).collect();
+		nonces.sort();
+		BlockHeader {
+			version: HeaderVersion(1 + r.below(5) as u16),
+			height: r.below(2_000_000),
+			prev_hash: mk_hash(r.next()),
+			prev_root: mk_hash(r.next()),
+			timestamp: chrono::DateTime::<chrono::Utc>::from_timestamp(1_600_000_000 + r.below(1_000_000) as i64, 0).expect("ts"),
+			output_root: mk_hash(r.next()),
+			range_proof_root: mk_hash(r.next()),
+			kernel_root: mk_hash(r.next()),
+			total_kernel_offset: BlindingFactor::from_slice(&r.bytes(32)),
+			output_mmr_size: pmmr::insertion_to_pmmr_index(1 + r.below(100_000)),
+			kernel_mmr_size: pmmr::insertion_to_pmmr_index(1 + r.below(100_000)),
+			pow: ProofOfWork {
+				total_difficulty: Difficulty::from_num(1 + r.below(1 << 40)),
+				secondary_scaling: r.next() as u32,
+				nonce: r.next(),
+				proof: Proof { edge_bits: eb, nonces },
+			},
+		}
+	}
+
+	fn g_parts(r: &mut Rng, ni: usize, no: usize, nk: usize, block: bool) -> (Inputs, Vec<Output>, Vec<TxKernel>) {
+		let ins: Vec<_> = (0..ni).map(|_| mk_input(r.next(), r.below(4) == 0)).collect();
+		let outs: Vec<_> = (0..no).map(|i| mk_output(r.next(), block && i == 0)).collect();
+		let kinds: [u8; 3] = [0, 2, 3];
+		let kerns: Vec<_> = (0..nk).map(|i| if block && i == 0 { mk_kernel(r.next(), 1) } else { mk_kernel(r.next(), kinds[r.below(3) as usize]) }).collect();
+		(Inputs::from(ins.as_slice()), outs, kerns)
+	}
+
+	fn g_tx(r: &mut Rng, ni: usize, no: usize, nk: usize) -> Transaction {
+		let (i, o, k) = g_parts(r, ni, no, nk, false);
+		Transaction::new(i, &o, &k).with_offset(BlindingFactor::from_slice(&r.bytes(32)))
+	}
+
+	fn g_body(r: &mut Rng, ni: usize, no: usize, nk: usize) -> TransactionBody {
+		let (i, o, k) = g_parts(r, ni, no, nk, true);
+		TransactionBody::init(i, &o, &k, false).expect("body")
+	}
+
+	/// the documented compact block layout: header, nonce, three counts, sorted lists
+	fn compact_bytes(h: &BlockHeader, nonce: u64, outs: &[Output], kerns: &[TxKernel], others: &[TxKernel], v: u32) -> Option<Vec<u8>> {
+		let mut outs = outs.to_vec();
+		let mut kerns = kerns.to_vec();
+		outs.sort();
+		kerns.sort();
+		let hh = h.hash();
+		let mut ids: Vec<_> = others.iter().map(|k| k.short_id(&hh, nonce)).collect();
+		ids.sort();
+		ids.dedup();
+		let mut b = enc(h, v)?;
+		b.extend_from_slice(&nonce.to_be_bytes());
+		b.extend_from_slice(&(outs.len() as u64).to_be_bytes());
+		b.extend_from_slice(&(kerns.len() as u64).to_be_bytes());
+		b.extend_from_slice(&(ids.len() as u64).to_be_bytes());
+		for o in &outs {
+			b.extend_from_slice(&enc(o, v)?);
+		}
+		for k in &kerns {
+			b.extend_from_slice(&enc(k, v)?);
+		}
+		for i in &ids {
+			b.extend_from_slice(i.as_ref());
+		}
+		Some(b)
+	}
+
+	fn compact_of_block(b: &Block, nonce: u64, v: u32) -> Option<Vec<u8>> {
+		let outs: Vec<Output> = b.body.outputs.iter().filter(|o| o.is_coinbase()).cloned().collect();
+		let kerns: Vec<TxKernel> = b.body.kernels.iter().filter(|k| k.is_coinbase()).cloned().collect();
+		let others: Vec<TxKernel> = b.body.kernels.iter().filter(|k| !k.is_coinbase()).cloned().collect();
+		compact_bytes(&b.header, nonce, &outs, &kerns, &others, v)
+	}
+
+	fn g_addr(r: &mut Rng, v6: bool) -> PeerAddr {
+		if v6 {
+			let s: Vec<u16> = (0..8).map(|_| r.next() as u16).collect();
+			PeerAddr(SocketAddr::V6(SocketAddrV6::new(Ipv6Addr::new(0x2001, s[1], s[2], s[3], s[4], s[5], s[6], s[7]), r.next() as u16, 0, 0)))
+		} else {
+			let b = r.bytes(4);
+			PeerAddr(SocketAddr::V4(SocketAddrV4::new(Ipv4Addr::new(b[0], b[1], b[2], b[3]), r.next() as u16)))
+		}
+	}
+
+	fn segproof(r: &mut Rng, n: u64) -> SegmentProof {
+		let mut b = n.to_be_bytes().to_vec();
+		for _ in 0..n {
+			b.extend_from_slice(&r.bytes(32));
+		}
+		let mut st = ReadStats::default();
+		rd::<SegmentProof>(&b, 1, 0, &mut st).expect("segment proof layout")
+	}
+
+	fn seg_from_tree<T>(t: &Tree<T>, h: u8, idx: u64, prunable: bool) -> Option<Segment<T>>
+	where
+		T: PMMRable<E = T> + Readable + Writeable + std::fmt::Debug,
+	{
+		Segment::from_pmmr(SegmentIdentifier { height: h, idx }, &ReadonlyPMMR::<T, _>::at(&t.backend, t.size), prunable).ok()
+	}
+
+	/// drop the data of leaves the bitmap does not ask for (keeping their hashes), as a pruned MMR would serve them
+	fn prune_segment<T: PMMRable + Clone>(seg: Segment<T>, t: &Tree<T>, bm: &croaring::Bitmap) -> Segment<T> {
+		let (id, hash_pos, hashes, leaf_pos, leaf_data, proof) = seg.parts();
+		let mut hs: BTreeMap<u64, Hash> = hash_pos.into_iter().zip(hashes).collect();
+		let mut lp = vec![];
+		let mut ld = vec![];
+		for (p, d) in leaf_pos.into_iter().zip(leaf_data) {
+			let i = pmmr::n_leaves(p + 1) - 1;
+			let sib = if pmmr::is_left_sibling(p) { i + 1 } else { i.wrapping_sub(1) };
+			let needed = bm.contains(i as u32) || bm.contains(sib as u32) || p == t.size - 1;
+			if needed {
+				lp.push(p);
+				ld.push(d);
+			} else if let Some(h) = t.backend.hashes.get(p as usize) {
+				hs.insert(p, *h);
+			}
+		}
+		let (hp, hh): (Vec<u64>, Vec<Hash>) = hs.into_iter().unzip();
+		Segment::from_parts(id, hp, hh, lp, ld, proof)
+	}
+
+	fn frame(ty: u8, body: &[u8]) -> Vec<u8> {
+		let mut b = enc(&MsgHeader::new(Type::Ping, body.len() as u64), 1).expect("msg header");
+		b[2] = ty;
+		b.extend_from_slice(body);
+		b
+	}
+
+	// ------------------------------------------------------------------ seeds: honest encodings with their field layout
+
+	pub struct Seed {
+		pub entry: u16,
+		pub version: u32,
+		pub flags: u8,
+		pub data: Vec<u8>,
+		pub label: String,
+		pub fields: Vec<Field>,
+	}
+
+	/// decode an honest encoding in-process with the recording reader
+	fn record(entry: u16, version: u32, flags: u8, data: &[u8]) -> (bool, Vec<Field>) {
+		let mut out = Outcome::default();
+		out.st.fields = Some(vec![]);
+		let r = catch(|| decode_case(entry, version, flags, data, &mut out));
+		set_chain(0);
+		(r.is_ok() && out.decoded, out.st.fields.take().unwrap_or_default())
+	}
+
+	pub struct Seeds {
+		pub v: Vec<Seed>,
+		/// honest seeds that did not decode (generator defects, reported as classes)
+		pub undecodable: Vec<String>,
+	}
+
+	impl Seeds {
+		fn push_raw(&mut self, entry: u16, version: u32, flags: u8, data: Vec<u8>, label: &str, fields: Option<Vec<Field>>) {
+			let e = entry_def(entry);
+			let flags = flags | if e.bin { F_BIN } else { 0 };
+			let fields = match fields {
+				Some(f) => f,
+				None if e.text => vec![],
+				None => {
+					let (ok, f) = record(entry, version, flags, &data);
+					if !ok {
+						self.undecodable.push(format!("{}:{}:v{}", e.name, label, version));
+					}
+					f
+				}
+			};
+			self.v.push(Seed { entry, version, flags, data, label: label.to_string(), fields });
+		}
+
+		/// encode a value at the versions that matter for the entry
+		fn add<T: Writeable>(&mut self, entry: u16, flags: u8, label: &str, x: &T) {
+			set_chain(flags);
+			let e = entry_def(entry);
+			let vs: &[u32] = if e.versioned { &VERSIONS } else { &[2, 1000] };
+			for (i, v) in vs.iter().enumerate() {
+				if !e.versioned && i != self.v.len() % 2 {
+					continue;
+				}
+				set_chain(flags);
+				if let Some(b) = enc(x, *v) {
+					self.push_raw(entry, *v, flags, b, label, None);
+				}
+			}
+			set_chain(0);
+		}
+	}
+
+	fn entry_def(id: u16) -> &'static EntryDef {
+		entry(id).expect("entry")
+	}
+
+	/// fields of a framed stream: message headers plus the recorded layout of known bodies
+	fn framed_fields(msgs: &[(u8, Vec<u8>, Option<u16>)], version: u32, flags: u8) -> (Vec<u8>, Vec<Field>) {
+		let mut data = vec![];
+		let mut fields = vec![];
+		for (ty, body, ent) in msgs {
+			let at = data.len();
+			fields.push(Field { off: at, len: 1, kind: FK::U8 });
+			fields.push(Field { off: at + 1, len: 1, kind: FK::U8 });
+			fields.push(Field { off: at + 2, len: 1, kind: FK::U8 });
+			fields.push(Field { off: at + 3, len: 8, kind: FK::U64 });
+			if let Some(e) = ent {
+				let fl = flags | if entry_def(*e).bin { F_BIN } else { 0 };
+				let (_, f) = record(*e, version, fl, body);
+				fields.extend(f.into_iter().map(|f| Field { off: f.off + at + 11, ..f }));
+			} else if *ty == Type::Headers as u8 && body.len() >= 2 {
+				fields.push(Field { off: at + 11, len: 2, kind: FK::U16 });
+				let (_, f) = record(E_UHEADER, version, flags, &body[2..]);
+				fields.extend(f.into_iter().map(|f| Field { off: f.off + at + 13, ..f }));
+			}
+			set_chain(flags);
+			data.extend_from_slice(&frame(*ty, body));
+			set_chain(0);
+		}
+		(data, fields)
+	}
+
+	/// Honest encodings of every entry point's type. `real` = blocks of the prepared real-PoW chain.
+	pub fn build_seeds(seed: u64, real: &[Block]) -> Seeds {
+		init_thread();
+		let mut s = Seeds { v: vec![], undecodable: vec![] };
+		let mut r = Rng::new(seed);
+		let u = uni();
+		let td = |r: &mut Rng| Difficulty::from_num(1 + r.below(1 << 50));
+
+		// --- simple p2p messages
+		for k in 0..2u64 {
+			s.add(E_PING, 0, "ping", &Ping { total_difficulty: td(&mut r), height: r.next() >> (k * 30) });
+			s.add(E_PONG, 0, "pong", &Pong { total_difficulty: td(&mut r), height: r.below(1 << 30) });
+		}
+		s.add(E_BAN, 0, "ban", &BanReason { ban_reason: ReasonForBan::BadBlock });
+		s.add(E_BAN, 0, "ban", &BanReason { ban_reason: ReasonForBan::BadHandshake });
+		s.add(E_HASH, 0, "hash", &mk_hash(r.next()));
+		for n in [0u64, 1, 20] {
+			s.add(E_LOCATOR, 0, &format!("locator{}", n), &Locator { hashes: (0..n).map(|_| mk_hash(r.next())).collect() });
+		}
+		s.add(E_GETPEERS, 0, "getpeers", &GetPeerAddrs { capabilities: Capabilities::from_bits_truncate(r.next() as u32 & 0x7f) });
+		for n in [0u64, 1, 3, 256] {
+			s.add(E_PEERADDRS, 0, &format!("peers{}", n), &PeerAddrs { peers: (0..n).map(|i| g_addr(&mut r, i % 2 == 1)).collect() });
+		}
+		s.add(E_PEERADDR, 0, "v4", &g_addr(&mut r, false));
+		s.add(E_PEERADDR, 0, "v6", &g_addr(&mut r, true));
+		s.add(E_TXHSREQ, 0, "req", &TxHashSetRequest { hash: mk_hash(r.next()), height: r.below(1 << 24) });
+		s.add(E_TXHSARCH, 0, "arch", &TxHashSetArchive { hash: mk_hash(r.next()), height: r.below(1 << 24), bytes: r.below(1 << 32) });
+		s.add(E_SEGREQ, 0, "segreq", &SegmentRequest { block_hash: mk_hash(r.next()), identifier: SegmentIdentifier { height: 11, idx: r.below(1000) } });
+		s.add(E_SEGID, 0, "segid", &SegmentIdentifier { height: 9, idx: r.below(1000) });
+		let uas = ["MW/Grin 5.3.0", "", "gr\u{00fc}n \u{1f331} node"];
+		let mut hands = vec![];
+		for (i, ua) in uas.iter().enumerate() {
+			let hand = Hand {
+				version: ProtocolVersion(1 + i as u32),
+				capabilities: Capabilities::from_bits_truncate(0x7f),
+				nonce: r.next(),
+				genesis: mk_hash(1),
+				total_difficulty: td(&mut r),
+				sender_addr: g_addr(&mut r, i == 1),
+				receiver_addr: g_addr(&mut r, i == 2),
+				user_agent: ua.to_string(),
+			};
+			s.add(E_HAND, 0, "hand", &hand);
+			hands.push(enc(&hand, 1).expect("hand"));
+			let shake = Shake { version: ProtocolVersion(3), capabilities: Capabilities::from_bits_truncate(0x0f), genesis: mk_hash(1), total_difficulty: td(&mut r), user_agent: ua.to_string() };
+			s.add(E_SHAKE, 0, "shake", &shake);
+			hands.push(enc(&shake, 1).expect("shake"));
+			s.add(E_PEERERR, 0, "peererr", &PeerError { code: r.next() as u32, message: ua.to_string() });
+		}
+
+		// --- transaction family (synthetic commitments and proofs: the codecs do not look inside)
+		for k in 0..4u8 {
+			let kern = mk_kernel(r.next(), k);
+			s.add(E_KERNEL, 0, &format!("kernel{}", k), &kern);
+			s.add(E_KFEATURES, 0, &format!("features{}", k), &kern.features);
+		}
+		s.add(E_OUTPUT, 0, "plain", &mk_output(r.next(), false));
+		s.add(E_OUTPUT, 0, "coinbase", &mk_output(r.next(), true));
+		s.add(E_OUTID, 0, "outid", &mk_outid(r.next()));
+		s.add(E_RANGEPROOF, 0, "rproof", &mk_rproof(r.next()));
+		s.add(E_INPUT, 0, "input", &mk_input(r.next(), false));
+		s.add(E_INPUT, 0, "input-cb", &mk_input(r.next(), true));
+		for (ni, no, nk) in [(0usize, 0usize, 0usize), (1, 2, 1), (2, 3, 2), (0, 1, 1), (6, 4, 4)] {
+			s.add(E_TX, 0, &format!("tx{}-{}-{}", ni, no, nk), &g_tx(&mut r, ni, no, nk));
+		}
+		for (ni, no, nk) in [(0usize, 1usize, 1usize), (2, 3, 2), (5, 4, 3)] {
+			s.add(E_BODY, 0, &format!("body{}-{}-{}", ni, no, nk), &g_body(&mut r, ni, no, nk));
+		}
+		// --- headers, blocks, compact blocks with synthetic proofs of work (plain readers do not verify them)
+		for mainnet in [false, true] {
+			let fl = if mainnet { F_MAINNET } else { 0 };
+			set_chain(fl);
+			let h = g_header(&mut r, mainnet);
+			s.add(E_HEADER, fl, "synthetic", &h);
+			s.add(E_PROOF, fl, "proof", &h.pow.proof);
+			s.add(E_POW, fl, "pow", &h.pow);
+			for (ni, no, nk) in [(0usize, 1usize, 1usize), (2, 3, 2)] {
+				set_chain(fl);
+				let body = g_body(&mut r, ni, no, nk);
+				let b = Block { header: g_header(&mut r, mainnet), body };
+				s.add(E_BLOCK, fl, &format!("synthetic{}-{}-{}", ni, no, nk), &b);
+				for v in VERSIONS {
+					set_chain(fl);
+					if let Some(cb) = compact_of_block(&b, r.next(), v) {
+						s.push_raw(E_COMPACT, v, fl, cb, "synthetic", None);
+					}
+				}
+			}
+			set_chain(0);
+		}
+		// --- objects of the real-PoW chain (the untrusted readers verify the proof of work)
+		let picks: Vec<&Block> = {
+			let mut v: Vec<&Block> = vec![];
+			let n = real.len();
+			if n > 0 {
+				let mut idx = vec![0usize, n / 3, n / 2, n - 1];
+				// blocks that carry transactions
+				idx.extend(real.iter().enumerate().filter(|(_, b)| b.body.kernels.len() > 1).map(|(i, _)| i).take(3));
+				idx.sort();
+				idx.dedup();
+				for i in idx {
+					v.push(&real[i]);
+				}
+			}
+			v
+		};
+		for b in &picks {
+			let tag = format!("real-h{}", b.header.height);
+			s.add(E_UHEADER, 0, &tag, &b.header);
+			s.add(E_UBLOCK, 0, &tag, *b);
+			for v in VERSIONS {
+				if let Some(cb) = compact_of_block(b, r.next(), v) {
+					s.push_raw(E_UCOMPACT, v, 0, cb, &tag, None);
+				}
+			}
+			let outs: Vec<Output> = b.body.outputs.iter().filter(|o| !o.is_coinbase()).cloned().collect();
+			let kerns: Vec<TxKernel> = b.body.kernels.iter().filter(|k| !k.is_coinbase()).cloned().collect();
+			if !kerns.is_empty() {
+				s.add(E_TX, 0, &tag, &Transaction::new(b.body.inputs.clone(), &outs, &kerns));
+			}
+		}
+		// --- segments cut from the universe's MMRs by the repository's own producer
+		for (ti, h, idx) in [(0usize, 0u8, 0u64), (4, 0, 2), (4, 1, 1), (4, 2, 0), (7, 3, 0), (12, 2, 3), (12, 4, 1), (15, 3, 2), (15, 5, 1)] {
+			let tag = format!("n{}-h{}-i{}", TREE_LEAVES[ti], h, idx);
+			if let Some(seg) = seg_from_tree(&u.kern[ti], h, idx, false) {
+				s.add(E_SEG_KERN, 0, &tag, &seg);
+				s.add(E_KERNRESP, 0, &tag, &SegmentResponse { block_hash: mk_hash(3), segment: seg });
+			}
+			if let Some(seg) = seg_from_tree(&u.outid[ti], h, idx, true) {
+				let bm = &bitmaps(u.outid[ti].n)[2];
+				let pruned = prune_segment(seg.clone(), &u.outid[ti], bm);
+				s.add(E_SEG_OUT, 0, &tag, &seg);
+				s.add(E_SEG_OUT, 0, &format!("{}-pruned", tag), &pruned);
+				s.add(E_OUTRESP, 0, &tag, &OutputSegmentResponse { response: SegmentResponse { block_hash: mk_hash(3), segment: pruned }, output_bitmap_root: mk_hash(4) });
+			}
+			if ti <= 7 {
+				if let Some(seg) = seg_from_tree(&u.rproof[ti], h, idx, true) {
+					s.add(E_SEG_RP, 0, &tag, &seg);
+					s.add(E_RPRESP, 0, &tag, &SegmentResponse { block_hash: mk_hash(3), segment: seg });
+				}
+			}
+		}
+		// segments with arbitrary (sorted) positions
+		for k in 0..2u64 {
+			let hp: Vec<u64> = (0..3).map(|i| 2 + 5 * i + k).collect();
+			let lp: Vec<u64> = (0..4).map(|i| 1 + 3 * i + k).collect();
+			let id = SegmentIdentifier { height: 2 + k as u8, idx: k };
+			let hashes: Vec<Hash> = hp.iter().map(|p| mk_hash(*p)).collect();
+			let seg = Segment::from_parts(id, hp.clone(), hashes.clone(), lp.clone(), lp.iter().map(|p| mk_kernel(*p, *p as u8)).collect(), segproof(&mut r, 2 + k));
+			s.add(E_SEG_KERN, 0, "synthetic", &seg);
+			let seg = Segment::from_parts(id, hp.clone(), hashes.clone(), lp.clone(), lp.iter().map(|p| mk_outid(*p)).collect::<Vec<OutputIdentifier>>(), segproof(&mut r, k));
+			s.add(E_SEG_OUT, 0, "synthetic", &seg);
+			let seg = Segment::from_parts(id, hp, hashes, lp.clone(), lp.iter().map(|p| mk_rproof(*p)).collect::<Vec<RangeProof>>(), segproof(&mut r, 1));
+			s.add(E_SEG_RP, 0, "synthetic", &seg);
+			s.add(E_SEGPROOF, 0, "segproof", &segproof(&mut r, 3 * k));
+		}
+		// --- bitmap segments (all three block encodings occur: sparse, dense, half-filled chunks)
+		for (bi, h, idx) in [(0usize, 0u8, 0u64), (2, 1, 0), (2, 1, 1), (4, 2, 1), (7, 6, 0), (7, 6, 1), (7, 3, 8), (8, 7, 0), (8, 7, 1), (6, 9, 0)] {
+			let bt = &u.bitmap[bi];
+			if let Ok(seg) = Segment::from_pmmr(SegmentIdentifier { height: h, idx }, &bt.acc.readonly_pmmr(), false) {
+				let bs = BitmapSegment::from(seg);
+				let tag = format!("c{}-h{}-i{}", bt.chunks, h, idx);
+				s.add(E_BITMAPSEG, 0, &tag, &bs);
+				s.add(E_BITMAPRESP, 0, &tag, &OutputBitmapSegmentResponse { block_hash: mk_hash(3), segment: bs, output_root: u.other });
+			}
+		}
+		// --- Merkle proofs
+		for (ti, leaf) in [(0usize, 0u64), (4, 2), (12, 16), (15, 0), (15, 32)] {
+			let t = &u.kern[ti];
+			if let Ok(p) = ReadonlyPMMR::<TxKernel, _>::at(&t.backend, t.size).merkle_proof(pmmr::insertion_to_pmmr_index(leaf)) {
+				s.add(E_MERKLE, 0, &format!("n{}-leaf{}", t.n, leaf), &p);
+			}
+		}
+		s.add(E_MERKLE, 0, "empty", &MerkleProof::empty());
+		// --- framing
+		let ping = enc(&Ping { total_difficulty: td(&mut r), height: 7 }, 1).expect("ping");
+		for (ty, len) in [(Type::Ping as u8, 16u64), (Type::Block as u8, 3000), (Type::Headers as u8, 2), (200u8, 5), (Type::Error as u8, 0)] {
+			let mut b = frame(ty, &[]);
+			b[3..11].copy_from_slice(&len.to_be_bytes());
+			s.push_raw(E_MSGHDR, 1, 0, b, &format!("type{}", ty), None);
+		}
+		for (i, body) in hands.iter().enumerate() {
+			let (ty, ent, rm) = if i % 2 == 0 { (Type::Hand as u8, E_HAND, E_RM_HAND) } else { (Type::Shake as u8, E_SHAKE, E_RM_SHAKE) };
+			let (d, f) = framed_fields(&[(ty, body.clone(), Some(ent))], 1, 0);
+			s.push_raw(rm, 1, 0, d, "handshake", Some(f));
+		}
+		// message streams for the streaming codec
+		let mut streams: Vec<(String, Vec<(u8, Vec<u8>, Option<u16>)>)> = vec![];
+		streams.push(("ping-pong-getpeers".into(), vec![
+			(Type::Ping as u8, ping.clone(), Some(E_PING)),
+			(Type::Pong as u8, ping.clone(), Some(E_PONG)),
+			(Type::GetPeerAddrs as u8, vec![0, 0, 0, 1], Some(E_GETPEERS)),
+		]));
+		streams.push(("unknown-then-ping".into(), vec![(200, vec![1, 2, 3, 4, 5], None), (Type::Ping as u8, ping.clone(), Some(E_PING))]));
+		streams.push(("locator-hash".into(), vec![
+			(Type::GetHeaders as u8, enc(&Locator { hashes: vec![mk_hash(1), mk_hash(2)] }, 1).unwrap(), Some(E_LOCATOR)),
+			(Type::GetBlock as u8, mk_hash(5).as_bytes().to_vec(), Some(E_HASH)),
+			(Type::TxHashSetArchive as u8, enc(&TxHashSetArchive { hash: mk_hash(9), height: 5, bytes: 1000 }, 1).unwrap(), Some(E_TXHSARCH)),
+		]));
+		if !real.is_empty() {
+			for n in [1usize, 3, 40] {
+				let hs: Vec<BlockHeader> = real.iter().take(n).map(|b| b.header.clone()).collect();
+				let body = enc(&Headers { headers: hs }, 1).unwrap();
+				streams.push((format!("headers{}", n), vec![(Type::Headers as u8, body, None), (Type::Ping as u8, ping.clone(), Some(E_PING))]));
+			}
+			let b = picks.last().unwrap();
+			for v in [1u32, 3] {
+				if let Some(bb) = enc(*b, v) {
+					let mut msgs = vec![(Type::Block as u8, bb, Some(E_UBLOCK))];
+					if let Some(cb) = compact_of_block(b, 11, v) {
+						msgs.push((Type::CompactBlock as u8, cb, Some(E_UCOMPACT)));
+					}
+					msgs.push((Type::Header as u8, enc(&b.header, v).unwrap(), Some(E_UHEADER)));
+					let (d, f) = framed_fields(&msgs, v, 0);
+					s.push_raw(E_CODEC, v, 0, d, "block-compact-header", Some(f));
+				}
+			}
+		}
+		if let Some(seg) = seg_from_tree(&u.kern[4], 1, 1, false) {
+			let body = enc(&SegmentResponse { block_hash: mk_hash(3), segment: seg }, 1).unwrap();
+			streams.push(("kernel-segment".into(), vec![(Type::KernelSegment as u8, body, Some(E_KERNRESP)), (Type::GetKernelSegment as u8, enc(&SegmentRequest { block_hash: mk_hash(3), identifier: SegmentIdentifier { height: 1, idx: 1 } }, 1).unwrap(), Some(E_SEGREQ))]));
+		}
+		let tx = g_tx(&mut r, 1, 2, 1);
+		for v in [1u32, 2, 3, 1000] {
+			let (d, f) = framed_fields(&[(Type::Transaction as u8, enc(&tx, v).unwrap(), Some(E_TX)), (Type::StemTransaction as u8, enc(&tx, v).unwrap(), Some(E_TX))], v, 0);
+			s.push_raw(E_CODEC, v, 0, d, "tx-stemtx", Some(f));
+		}
+		for (i, (name, msgs)) in streams.iter().enumerate() {
+			let v = if name.contains("segment") { 1 } else { VERSIONS[i % 4] };
+			let (d, f) = framed_fields(msgs, v, 0);
+			s.push_raw(E_CODEC, v, 0, d, name, Some(f));
+		}
+		// a mainnet-framed stream (other magic, other size limits)
+		{
+			let (d, f) = framed_fields(&[(Type::Ping as u8, ping.clone(), Some(E_PING)), (Type::Pong as u8, ping, Some(E_PONG))], 2, F_MAINNET);
+			s.push_raw(E_CODEC, 2, F_MAINNET, d, "mainnet-ping-pong", Some(f));
+			// mainnet limits of the big message types and of unknown types
+			for ty in [Type::Block as u8, Type::KernelSegment as u8, Type::Headers as u8, 200u8] {
+				let (d, f) = framed_fields(&[(ty, vec![0u8; 40], None), (Type::Ping as u8, vec![0u8; 16], Some(E_PING))], 1, F_MAINNET);
+				s.push_raw(E_CODEC, 1, F_MAINNET, d.clone(), &format!("probe-mainnet-type{}", ty), Some(f.clone()));
+				if ty != Type::Headers as u8 {
+					s.push_raw(E_RM_HAND, 1, F_MAINNET, d, &format!("probe-mainnet-type{}", ty), Some(f));
+				}
+			}
+		}
+		// --- hex strings
+		let proofs: Vec<Vec<u8>> = s.v.iter().filter(|x| x.entry == E_MERKLE).map(|x| x.data.clone()).collect();
+		for (i, p) in proofs.iter().enumerate() {
+			let h = hex(p);
+			let t = match i % 4 {
+				0 => h,
+				1 => format!("0x{}", h),
+				2 => format!("  {}\n", h.to_uppercase()),
+				_ => format!("0x0x{}", h),
+			};
+			s.push_raw(E_MERKLE_HEX, 1, 0, t.clone().into_bytes(), "merkle-hex", None);
+			s.push_raw(E_UTIL_HEX, 1, 0, t.into_bytes(), "merkle-hex", None);
+		}
+		s.push_raw(E_UTIL_HEX, 1, 0, b"00ff10".to_vec(), "short", None);
+		set_chain(0);
+		s
+	}
+
+	// ------------------------------------------------------------------ mutations
+
+	#[derive(Clone, Debug)]
+	enum M {
+		Honest,
+		/// overwrite w bytes at off with the big-endian value
+		Set { off: usize, w: u8, val: u64 },
+		Trunc(usize),
+		/// 0: =0x00, 1: =0xff, 2: +1, 3: -1
+		ByteOp { off: usize, op: u8 },
+		/// keep [..at] and continue with another seed's bytes from other_at
+		Splice { at: usize, other: u32, other_at: usize },
+		/// repeat the byte range once more right after itself
+		Dup { off: usize, len: usize },
+		Append(u8),
+		BitFlip(usize),
+		/// keep [..at], then n pseudo-random bytes
+		RandTail { at: usize, n: usize },
+		/// strings: delete `del` bytes at `at`, insert `ins`
+		Text { at: usize, del: usize, ins: &'static str },
+	}
+
+	#[derive(Clone, Debug)]
+	struct Desc {
+		seed: u32,
+		m: M,
+		kind: &'static str,
+		/// field class
+		fc: String,
+	}
+
+	const U64_VALS: [u64; 28] = [
+		1 << 56,
+		1 << 57,
+		1 << 61,
+		1 << 62,
+		(1 << 63) - 1,
+		5_000_000,
+		10_000_000,
+		0,
+		1,
+		2,
+		0xff,
+		0x100,
+		0xffff,
+		0x1_0000,
+		0xffff_ffff,
+		1 << 32,
+		1 << 40,
+		1 << 63,
+		u64::MAX,
+		u64::MAX - 1,
+		999_999,
+		1_000_000,
+		1_000_001,
+		100_000,
+		100_001,
+		1023,
+		1024,
+		1025,
+	];
+	const U32_VALS: [u64; 13] = [0, 1, 2, 0xff, 0x100, 0xffff, 0x1_0000, 0x7fff_ffff, 0x8000_0000, 0xffff_ffff, 255, 256, 257];
+	const U16_VALS: [u64; 16] = [0, 1, 2, 0xff, 0x100, 0x7fff, 0x8000, 0xffff, 511, 512, 513, 1023, 1024, 4095, 4096, 4097];
+	const U8_VALS: [u64; 11] = [0, 1, 2, 3, 4, 0x3f, 0x40, 0x7f, 0x80, 0xfe, 0xff];
+	const TEXT_INS: [&str; 14] = ["g", "z", " ", "\n", "0x", "\u{e9}", "\u{20ac}", "\u{10348}", "+", "-", "0", "F", "\u{0}", "\u{e9}\u{e9}"];
+
+	fn be_at(b: &[u8], off: usize, w: usize) -> u64 {
+		let mut x = 0u64;
+		for i in 0..w {
+			x = (x << 8) | *b.get(off + i).unwrap_or(&0) as u64;
+		}
+		x
+	}
+
+	fn field_class(kind: FK, ord: usize) -> String {
+		format!("{}#{}", kind.name(), ord.min(9))
+	}
+
+	/// every directed mutation of one seed (descriptors only; bytes are materialised after selection)
+	fn enumerate(si: u32, seed: &Seed, n_seeds: u32, r: &mut Rng, out: &mut Vec<Desc>) {
+		let len = seed.data.len();
+		let text = entry_def(seed.entry).text;
+		out.push(Desc { seed: si, m: M::Honest, kind: "honest", fc: "-".into() });
+		if text {
+			let s = String::from_utf8_lossy(&seed.data).to_string();
+			let bounds: Vec<usize> = s.char_indices().map(|(i, _)| i).collect();
+			let picks: Vec<usize> = if bounds.len() <= 80 { bounds.clone() } else { (0..80).map(|_| *r.pick(&bounds)).collect() };
+			for &at in &picks {
+				out.push(Desc { seed: si, m: M::Trunc(at), kind: "text-trunc", fc: format!("parity{}", at % 2) });
+			}
+			for k in 0..picks.len().min(60) {
+				let at = picks[k];
+				let ins = TEXT_INS[r.below(TEXT_INS.len() as u64) as usize];
+				let del = r.below(3) as usize;
+				let del = if s.is_char_boundary((at + del).min(s.len())) { del.min(s.len() - at) } else { 0 };
+				out.push(Desc { seed: si, m: M::Text { at, del, ins }, kind: if del == 0 { "text-insert" } else { "text-replace" }, fc: format!("{}b-parity{}", ins.len(), at % 2) });
+			}
+			return;
+		}
+		// fields, by kind
+		let mut ord: HashMap<FK, usize> = HashMap::new();
+		for f in &seed.fields {
+			let o = *ord.entry(f.kind).and_modify(|x| *x += 1).or_insert(0);
+			let fc = field_class(f.kind, o);
+			let (w, vals): (usize, &[u64]) = match f.kind {
+				FK::U64 | FK::LenBytes => (8, &U64_VALS),
+				FK::U32 => (4, &U32_VALS),
+				FK::U16 => (2, &U16_VALS),
+				FK::U8 => (1, &U8_VALS),
+				FK::Fixed => (0, &[]),
+			};
+			if f.off + w > len {
+				continue;
+			}
+			if w == 0 {
+				if f.len > 0 {
+					for (off, op) in [(f.off, 1u8), (f.off, 2), (f.off + f.len - 1, 0), (f.off + f.len - 1, 3)] {
+						out.push(Desc { seed: si, m: M::ByteOp { off, op }, kind: "fixed-edge", fc: fc.clone() });
+					}
+				}
+				continue;
+			}
+			let orig = be_at(&seed.data, f.off, w);
+			let kind = match f.kind {
+				FK::U8 => "u8-tag",
+				FK::U16 => "u16-boundary",
+				FK::U32 => "u32-boundary",
+				_ => "u64-boundary",
+			};
+			if f.kind == FK::U8 && o < 3 {
+				// tag / feature / height bytes: full sweep
+				for v in 0..=255u64 {
+					if v != orig {
+						out.push(Desc { seed: si, m: M::Set { off: f.off, w: 1, val: v }, kind: "u8-sweep", fc: fc.clone() });
+					}
+				}
+				continue;
+			}
+			let mask = if w == 8 { u64::MAX } else { (1u64 << (8 * w)) - 1 };
+			let mut vs: Vec<u64> = if o < 24 { vals.to_vec() } else { vec![0, mask] };
+			vs.push(orig.wrapping_add(1) & mask);
+			vs.push(orig.wrapping_sub(1) & mask);
+			vs.sort();
+			vs.dedup();
+			for v in vs {
+				if v != orig {
+					out.push(Desc { seed: si, m: M::Set { off: f.off, w: w as u8, val: v }, kind, fc: fc.clone() });
+				}
+			}
+		}
+		// truncation
+		let bound_class = |at: usize| -> String {
+			match seed.fields.iter().position(|f| f.off + f.len > at) {
+				Some(i) => format!("in-field{}", i.min(9)),
+				None => "tail".into(),
+			}
+		};
+		if len <= 400 {
+			for at in 0..len {
+				out.push(Desc { seed: si, m: M::Trunc(at), kind: "trunc", fc: bound_class(at) });
+			}
+		} else {
+			let mut ats: Vec<usize> = vec![];
+			for f in seed.fields.iter().take(150) {
+				ats.push(f.off);
+				ats.push(f.off + 1);
+				ats.push((f.off + f.len).saturating_sub(1));
+			}
+			for k in 0..48 {
+				ats.push(len * k / 48);
+			}
+			ats.push(len - 1);
+			ats.sort();
+			ats.dedup();
+			for at in ats {
+				if at < len {
+					out.push(Desc { seed: si, m: M::Trunc(at), kind: "trunc", fc: bound_class(at) });
+				}
+			}
+		}
+		// every byte position (short encodings) / sampled positions
+		let pos: Vec<usize> = if len <= 160 { (0..len).collect() } else { (0..64).map(|_| r.below(len as u64) as usize).collect() };
+		for off in pos {
+			for op in 0..4u8 {
+				out.push(Desc { seed: si, m: M::ByteOp { off, op }, kind: "byte-set", fc: bound_class(off) });
+			}
+		}
+		for _ in 0..16 {
+			let bit = r.below(8 * len.max(1) as u64) as usize;
+			out.push(Desc { seed: si, m: M::BitFlip(bit), kind: "bit-flip", fc: bound_class(bit / 8) });
+		}
+		// splices, duplications, appended bytes, random tails (at field boundaries)
+		let bounds: Vec<usize> = if seed.fields.is_empty() { vec![0, len / 2] } else { seed.fields.iter().map(|f| f.off).collect() };
+		for _ in 0..8 {
+			let at = *r.pick(&bounds);
+			out.push(Desc { seed: si, m: M::Splice { at, other: r.below(n_seeds as u64) as u32, other_at: r.next() as usize }, kind: "splice", fc: bound_class(at) });
+		}
+		if !seed.fields.is_empty() {
+			for _ in 0..4 {
+				let f = *r.pick(&seed.fields);
+				out.push(Desc { seed: si, m: M::Dup { off: f.off, len: f.len }, kind: "dup-field", fc: field_class(f.kind, 0) });
+			}
+		}
+		for v in 0..3u8 {
+			out.push(Desc { seed: si, m: M::Append(v), kind: "append", fc: format!("v{}", v) });
+		}
+		for _ in 0..6 {
+			let at = *r.pick(&bounds);
+			let n = [1usize, 8, 33, 256][r.below(4) as usize];
+			out.push(Desc { seed: si, m: M::RandTail { at, n }, kind: "rand-tail", fc: bound_class(at) });
+		}
+	}
+
+	fn materialise(d: &Desc, seeds: &[Seed]) -> Vec<u8> {
+		let s = &seeds[d.seed as usize];
+		let mut b = s.data.clone();
+		match &d.m {
+			M::Honest => {}
+			M::Set { off, w, val } => {
+				let w = *w as usize;
+				let bytes = val.to_be_bytes();
+				b[*off..*off + w].copy_from_slice(&bytes[8 - w..]);
+			}
+			M::Trunc(at) => b.truncate(*at),
+			M::ByteOp { off, op } => {
+				if let Some(x) = b.get_mut(*off) {
+					*x = match op {
+						0 => 0,
+						1 => 0xff,
+						2 => x.wrapping_add(1),
+						_ => x.wrapping_sub(1),
+					};
+				}
+			}
+			M::Splice { at, other, other_at } => {
+				let o = &seeds[*other as usize];
+				b.truncate(*at);
+				let from = if o.fields.is_empty() { 0 } else { o.fields[*other_at % o.fields.len()].off };
+				b.extend_from_slice(&o.data[from.min(o.data.len())..]);
+			}
+			M::Dup { off, len } => {
+				let end = (*off + *len).min(b.len());
+				let piece = b[*off..end].to_vec();
+				let tail = b.split_off(end);
+				b.extend_from_slice(&piece);
+				b.extend_from_slice(&tail);
+			}
+			M::Append(v) => match v {
+				0 => b.push(0),
+				1 => b.extend_from_slice(&[0xff; 8]),
+				_ => b.extend_from_slice(&fill(d.seed as u64, 64)),
+			},
+			M::BitFlip(bit) => {
+				if let Some(x) = b.get_mut(bit / 8) {
+					*x ^= 1 << (bit % 8);
+				}
+			}
+			M::RandTail { at, n } => {
+				b.truncate(*at);
+				b.extend_from_slice(&fill((d.seed as u64) << 20 | (*at as u64) << 8 | *n as u64, *n));
+			}
+			M::Text { at, del, ins } => {
+				let end = (*at + *del).min(b.len());
+				let tail = b.split_off(end);
+				b.truncate(*at);
+				b.extend_from_slice(ins.as_bytes());
+				b.extend_from_slice(&tail);
+			}
+		}
+		b
+	}
+
+	/// water-filling: every stratum (entry, mutation kind) gets min(size, q) cases so that the total is about `budget`
+	fn select(descs: Vec<Desc>, seeds: &[Seed], budget: usize, r: &mut Rng) -> Vec<Desc> {
+		let mut strata: BTreeMap<(u16, &'static str), Vec<Desc>> = BTreeMap::new();
+		for d in descs {
+			strata.entry((seeds[d.seed as usize].entry, d.kind)).or_default().push(d);
+		}
+		let total: usize = strata.values().map(|v| v.len()).sum();
+		if total <= budget {
+			return strata.into_values().flatten().collect();
+		}
+		let (mut lo, mut hi) = (1usize, total);
+		while lo < hi {
+			let q = (lo + hi + 1) / 2;
+			let t: usize = strata.values().map(|v| v.len().min(q)).sum();
+			if t <= budget {
+				lo = q;
+			} else {
+				hi = q - 1;
+			}
+		}
+		let q = lo;
+		let mut out = vec![];
+		for (_, mut v) in strata {
+			if v.len() > q {
+				// honest cases first, the rest by a seeded partial shuffle
+				let mut keep: Vec<Desc> = vec![];
+				let mut rest: Vec<Desc> = vec![];
+				for d in v.drain(..) {
+					if matches!(d.m, M::Honest) {
+						keep.push(d);
+					} else {
+						rest.push(d);
+					}
+				}
+				for i in 0..rest.len() {
+					if keep.len() >= q {
+						break;
+					}
+					let j = i + r.below((rest.len() - i) as u64) as usize;
+					rest.swap(i, j);
+					keep.push(rest[i].clone());
+				}
+				out.extend(keep);
+			} else {
+				out.extend(v);
+			}
+		}
+		out
+	}
+
+	fn random_text(r: &mut Rng) -> Vec<u8> {
+		const ALPHA: [&str; 24] = ["0", "1", "9", "a", "b", "f", "A", "F", "x", "0x", " ", "g", "z", "\u{e9}", "\u{20ac}", "\u{10348}", "+", "\t", "7", "c", "d", "e", "00", "ff"];
+		let n = match r.below(4) {
+			0 => r.below(8),
+			1 => r.below(40),
+			2 => r.below(200),
+			_ => r.below(2000),
+		};
+		let mut s = String::new();
+		let hexish = r.below(3) != 0;
+		for _ in 0..n {
+			if hexish && r.below(12) != 0 {
+				s.push_str(ALPHA[r.below(8) as usize]);
+			} else {
+				s.push_str(ALPHA[r.below(24) as usize]);
+			}
+		}
+		s.into_bytes()
+	}
+
+	fn random_len(r: &mut Rng) -> usize {
+		match r.below(6) {
+			0 => r.below(12) as usize,
+			1 => r.below(64) as usize,
+			2 | 3 => r.below(512) as usize,
+			_ => r.below(4097) as usize,
+		}
+	}
+
+	pub struct Generated {
+		pub cases: Vec<Case>,
+		pub excluded: BTreeMap<String, u64>,
+		pub n_seeds: usize,
+		pub undecodable: Vec<String>,
+	}
+
+	/// all cases of a run: a pure function of (seed, budget, real blocks)
+	pub fn generate(seed: u64, budget: usize, real: &[Block]) -> Generated {
+		let seeds = build_seeds(seed, real);
+		let mut r = Rng::new(seed ^ 0x5eed);
+		let mut descs = vec![];
+		let n = seeds.v.len() as u32;
+		for (i, s) in seeds.v.iter().enumerate() {
+			let mut rs = Rng::new(seed ^ ((i as u64 + 1) << 24));
+			enumerate(i as u32, s, n, &mut rs, &mut descs);
+		}
+		let structured = budget * 86 / 100;
+		let chosen = select(descs, &seeds.v, structured, &mut r);
+		let mut cases = vec![];
+		let mut excluded: BTreeMap<String, u64> = BTreeMap::new();
+		let mut push = |c: Case, cases: &mut Vec<Case>| {
+			if let Some(reason) = excluded_by_known(c.entry, c.flags, &c.data) {
+				*excluded.entry(reason.to_string()).or_insert(0) += 1;
+			} else {
+				cases.push(c);
+			}
+		};
+		for d in &chosen {
+			let s = &seeds.v[d.seed as usize];
+			let mut flags = s.flags;
+			// the other reader implementation for a share of the cases
+			if !entry_def(s.entry).text && !entry_def(s.entry).framed && mix(d.seed as u64 ^ (cases.len() as u64) << 7) % 6 == 0 {
+				flags ^= F_BIN;
+			}
+			let c = Case { entry: s.entry, version: s.version, flags, data: materialise(d, &seeds.v), kind: d.kind, fclass: d.fc.clone(), origin: s.label.clone(), directed: None };
+			// Merkle proof cases also travel as hex strings
+			if c.entry == E_MERKLE && cases.len() % 2 == 0 {
+				let h = hex(&c.data);
+				let t = if cases.len() % 4 == 0 { h } else { format!("0x{}", h.to_uppercase().replace("0X", "0x")) };
+				push(Case { entry: E_MERKLE_HEX, version: 1, flags: F_BIN, data: t.into_bytes(), kind: c.kind, fclass: c.fclass.clone(), origin: c.origin.clone(), directed: None }, &mut cases);
+			}
+			push(c, &mut cases);
+		}
+		// pure random input for every entry point
+		let per_entry = (budget - structured.min(budget)) / ENTRIES.len().max(1);
+		for e in ENTRIES {
+			for k in 0..per_entry {
+				let data = if e.text { random_text(&mut r) } else { let n = random_len(&mut r); r.bytes(n) };
+				let version = VERSIONS[k % 4];
+				let mut flags = if e.bin { F_BIN } else { 0 };
+				if k % 5 == 4 {
+					flags |= F_MAINNET;
+				}
+				push(Case { entry: e.id, version, flags, data, kind: "random", fclass: "-".into(), origin: "random".into(), directed: None }, &mut cases);
+			}
+		}
+		Generated { cases, excluded, n_seeds: seeds.v.len(), undecodable: seeds.undecodable }
+	}
+
+	// ------------------------------------------------------------------ directed cases of the known findings (minimised by hand)
+
+	fn mainnet_header(ty: u8, len: u64) -> Vec<u8> {
+		let mut b = vec![97u8, 61, ty];
+		b.extend_from_slice(&len.to_be_bytes());
+		b
+	}
+
+	pub fn directed_cases() -> Vec<Case> {
+		let mk = |entry: u16, flags: u8, data: Vec<u8>, name: &'static str| Case {
+			entry,
+			version: 1,
+			flags: flags | F_NOEXCL,
+			data,
+			kind: "directed",
+			fclass: "-".into(),
+			origin: name.to_string(),
+			directed: Some(name),
+		};
+		let merkle = |path_len: u64| {
+			let mut b = 0u64.to_be_bytes().to_vec();
+			b.extend_from_slice(&path_len.to_be_bytes());
+			b
+		};
+		// identifier (height 0, idx 1), no hashes, no leaves, empty proof: validated against the one-leaf MMR
+		let mut seg = vec![0u8];
+		seg.extend_from_slice(&1u64.to_be_bytes());
+		seg.extend_from_slice(&[0u8; 24]);
+		vec![
+			mk(E_MERKLE_HEX, F_BIN, b"zz".to_vec(), "merkle-from-hex-unwrap"),
+			mk(E_MERKLE, F_BIN, merkle(1 << 40), "merkle-path-len-2^40"),
+			mk(E_MERKLE, F_BIN, merkle(1 << 63), "merkle-path-len-2^63"),
+			// smallest declared length whose pre-allocation exceeds the bound (32 bytes per hash)
+			mk(E_MERKLE, F_BIN, merkle((ALLOC_REQ_BASE + 16 * ALLOC_PER_BYTE) / 32 + 1), "merkle-path-len-smallest-over-bound"),
+			mk(E_MERKLE_HEX, F_BIN, hex(&merkle(1 << 40)).into_bytes(), "merkle-hex-path-len-2^40"),
+			mk(E_SEG_KERN, 0, seg.clone(), "segment-idx-beyond-last"),
+			// identifier (height 64, idx 1): `1 << 64` wraps to capacity 1 while the position range still adds 64
+			mk(E_SEG_OUT, 0, { let mut s = seg; s[0] = 64; s }, "segment-height-64"),
+			mk(E_UTIL_HEX, F_BIN, "a\u{e9}a".as_bytes().to_vec(), "hex-char-boundary"),
+			// bitmap segment (height 1, idx 2^62): one block of two empty chunks, empty proof; leaf offset 2^63
+			mk(
+				E_BITMAPSEG,
+				0,
+				{
+					let mut b = vec![1u8];
+					b.extend_from_slice(&(1u64 << 62).to_be_bytes());
+					b.extend_from_slice(&[0, 1, 2, 1, 0, 0]);
+					b.extend_from_slice(&[0u8; 8]);
+					b
+				},
+				"bitmap-segment-leaf-offset-2^63",
+			),
+			// mainnet: 11-byte headers announcing the largest body the framing accepts (4 x max_msg_size)
+			mk(E_CODEC, F_MAINNET, mainnet_header(Type::KernelSegment as u8, 10_784_256), "codec-announced-kernel-segment-10MB"),
+			mk(E_CODEC, F_MAINNET, mainnet_header(Type::Block as u8, 5_392_128), "codec-announced-block-5MB"),
+			mk(E_RM_HAND, F_MAINNET, mainnet_header(200, 5_392_128), "handshake-announced-unknown-5MB"),
+			mk(E_RM_HAND, F_MAINNET, mainnet_header(Type::Hand as u8, 512), "handshake-announced-hand-512"),
+			mk(E_MERKLE_HEX, F_BIN, "a\u{e9}a".as_bytes().to_vec(), "merkle-hex-char-boundary"),
+		]
+	}
+
+	// ------------------------------------------------------------------ calibration: honest maximal messages
+
+	pub fn calibration_cases() -> Vec<Case> {
+		let mut r = Rng::new(0xca11b);
+		let mut v = vec![];
+		let mut mk = |entry: u16, flags: u8, version: u32, data: Vec<u8>, name: &str| {
+			let e = entry_def(entry);
+			v.push(Case { entry, version, flags: flags | if e.bin { F_BIN } else { 0 }, data, kind: "calibrate", fclass: "-".into(), origin: name.to_string(), directed: None });
+		};
+		// a full mainnet block: 1,900 outputs + 33 kernels (weight 40,000)
+		set_chain(F_MAINNET);
+		let (i, o, k) = g_parts(&mut r, 0, 1900, 33, true);
+		let body = TransactionBody::init(i, &o, &k, false).expect("body");
+		let block = Block { header: g_header(&mut r, true), body };
+		for ver in [1u32, 3] {
+			let b = enc(&block, ver).expect("block");
+			mk(E_BLOCK, F_MAINNET, ver, b.clone(), "mainnet-full-block");
+			mk(E_BODY, F_MAINNET, ver, enc(&block.body, ver).expect("body"), "mainnet-full-body");
+			set_chain(F_MAINNET);
+			mk(E_CODEC, F_MAINNET, ver, frame(Type::Block as u8, &b), "mainnet-full-block-framed");
+		}
+		// a transaction of maximal weight
+		let tx = g_tx(&mut r, 100, 1890, 10);
+		mk(E_TX, F_MAINNET, 2, enc(&tx, 2).expect("tx"), "mainnet-max-tx");
+		set_chain(0);
+		// PIBD segments of the heights the node requests (2^11 leaves, bitmap 2^9 chunks)
+		let n = 2048u64;
+		let lp: Vec<u64> = (0..n).map(pmmr::insertion_to_pmmr_index).collect();
+		let hp: Vec<u64> = (0..n - 1).map(|i| pmmr::insertion_to_pmmr_index(i + 1) - 1).filter(|p| !pmmr::is_leaf(*p)).collect();
+		let hashes: Vec<Hash> = hp.iter().map(|p| mk_hash(*p)).collect();
+		let id = SegmentIdentifier { height: 11, idx: 0 };
+		let seg = Segment::from_parts(id, vec![], vec![], lp.clone(), lp.iter().map(|p| mk_kernel(*p, *p as u8)).collect::<Vec<TxKernel>>(), segproof(&mut r, 20));
+		mk(E_KERNRESP, 0, 1, enc(&SegmentResponse { block_hash: mk_hash(1), segment: seg }, 1).expect("seg"), "kernel-segment-2048");
+		let seg = Segment::from_parts(id, hp.clone(), hashes.clone(), lp.clone(), lp.iter().map(|p| mk_rproof(*p)).collect::<Vec<RangeProof>>(), segproof(&mut r, 20));
+		mk(E_RPRESP, 0, 1, enc(&SegmentResponse { block_hash: mk_hash(1), segment: seg }, 1).expect("seg"), "rangeproof-segment-2048");
+		let seg = Segment::from_parts(id, hp, hashes, lp.clone(), lp.iter().map(|p| mk_outid(*p)).collect::<Vec<OutputIdentifier>>(), segproof(&mut r, 20));
+		mk(E_OUTRESP, 0, 1, enc(&OutputSegmentResponse { response: SegmentResponse { block_hash: mk_hash(1), segment: seg }, output_bitmap_root: mk_hash(2) }, 1).expect("seg"), "output-segment-2048");
+		let lp: Vec<u64> = (0..512u64).map(pmmr::insertion_to_pmmr_index).collect();
+		let chunks: Vec<BitmapChunk> = (0..512u64)
+			.map(|c| {
+				let mut ch = BitmapChunk::new();
+				for k in 0..1024u64 {
+					if mix(c * 1024 + k) & 1 == 1 {
+						ch.set(k, true);
+					}
+				}
+				ch
+			})
+			.collect();
+		let bs = BitmapSegment::from(Segment::from_parts(SegmentIdentifier { height: 9, idx: 0 }, vec![], vec![], lp, chunks, segproof(&mut r, 12)));
+		mk(E_BITMAPRESP, 0, 1, enc(&OutputBitmapSegmentResponse { block_hash: mk_hash(1), segment: bs, output_root: mk_hash(2) }, 1).expect("bitmap"), "bitmap-segment-512");
+		// the longest lists the small messages allow
+		mk(E_PEERADDRS, 0, 1, enc(&PeerAddrs { peers: (0..256).map(|i| g_addr(&mut r, i % 2 == 0)).collect() }, 1).expect("peers"), "peeraddrs-256");
+		mk(E_LOCATOR, 0, 1, enc(&Locator { hashes: (0..20).map(mk_hash).collect() }, 1).expect("locator"), "locator-20");
+		let t = &uni().kern[15];
+		if let Ok(p) = ReadonlyPMMR::<TxKernel, _>::at(&t.backend, t.size).merkle_proof(0) {
+			let b = enc(&p, 1).expect("merkle");
+			mk(E_MERKLE_HEX, 0, 1, hex(&b).into_bytes(), "merkle-proof-33-leaves");
+			mk(E_MERKLE, 0, 1, b, "merkle-proof-33-leaves");
+		}
+		drop(mk);
+		set_chain(0);
+		v
+	}
+
+	// ------------------------------------------------------------------ running cases on the worker pool
+
+	#[derive(Default)]
+	struct Tally {
+		evals: u64,
+		classes: BTreeMap<String, u64>,
+		shapes: Vec<u64>,
+		/// entry -> (largest request, peak live, input length) over honest / calibration cases
+		honest_max: BTreeMap<String, (u64, u64, u64)>,
+		max_us: u64,
+		slowest: String,
+	}
+
+	impl Tally {
+		fn class(&mut self, c: String) {
+			*self.classes.entry(c).or_insert(0) += 1;
+		}
+		fn merge(&mut self, o: Tally) {
+			self.evals += o.evals;
+			for (k, n) in o.classes {
+				*self.classes.entry(k).or_insert(0) += n;
+			}
+			self.shapes.extend(o.shapes);
+			for (k, v) in o.honest_max {
+				let e = self.honest_max.entry(k).or_insert((0, 0, 0));
+				if v.0 > e.0 {
+					e.0 = v.0;
+					e.2 = v.2;
+				}
+				e.1 = e.1.max(v.1);
+			}
+			if o.max_us > self.max_us {
+				self.max_us = o.max_us;
+				self.slowest = o.slowest;
+			}
+		}
+	}
+
+	fn account(t: &mut Tally, c: &Case, res: &Res) {
+		let name = entry_name(c.entry);
+		t.evals += 1;
+		t.class(format!("mutation:{}", c.kind));
+		match res {
+			Res::Line(v) => {
+				if !v["he"].is_null() {
+					t.class(format!("harness_problem_in_worker:{}", name));
+					return;
+				}
+				let s = v["s"].as_str().unwrap_or("?");
+				let outcome = match s {
+					"ok" => "decoded_ok",
+					"err" => "decode_err",
+					_ => "panic",
+				};
+				t.class(format!("entry:{}:{}", name, outcome));
+				let (po, pe) = (v["po"].as_u64().unwrap_or(0), v["pe"].as_u64().unwrap_or(0));
+				if po > 0 {
+					t.class(format!("entry:{}:post_check_ok", name));
+				}
+				if pe > 0 {
+					t.class(format!("entry:{}:post_check_err", name));
+				}
+				let ex = v["ex"].as_u64().unwrap_or(0);
+				if ex > 0 {
+					*t.classes.entry("excluded_by_construction:segment-identifier-beyond-last-or-height>=64(validations skipped)".into()).or_insert(0) += ex;
+				}
+				if c.kind == "honest" && s != "ok" && !c.origin.starts_with("probe-") {
+					eprintln!("note: honest case not decoded: {} {} v{} flags {}: {}", name, c.origin, c.version, c.flags, v);
+					t.class(format!("honest_not_decoded:{}", name));
+				}
+				// non-trivial: got past the first field, or decoded and reached the post-decode checks
+				if v["ok"].as_u64().unwrap_or(0) >= 1 || po + pe > 0 {
+					t.shapes.push(hash_of(&(c.entry, c.kind, &c.fclass, outcome, po > 0, pe > 0)));
+				}
+				if c.kind == "honest" || c.kind == "calibrate" {
+					let e = t.honest_max.entry(name.to_string()).or_insert((0, 0, 0));
+					let (lg, pk) = (v["lg"].as_u64().unwrap_or(0), v["pk"].as_u64().unwrap_or(0));
+					if lg > e.0 {
+						e.0 = lg;
+						e.2 = c.data.len() as u64;
+					}
+					e.1 = e.1.max(pk);
+				}
+				let us = v["us"].as_u64().unwrap_or(0);
+				if us > t.max_us {
+					t.max_us = us;
+					t.slowest = format!("{} ({} bytes, {})", name, c.data.len(), c.kind);
+				}
+			}
+			Res::Died { .. } => t.class(format!("entry:{}:process_died", name)),
+			Res::Timeout => t.class(format!("entry:{}:watchdog", name)),
+		}
+	}
+
+	pub struct Found {
+		pub fail: Fail,
+		pub case: Case,
+	}
+
+	/// run all cases on `procs` worker processes; returns failures and the cases that tripped the watchdog
+	fn run_pool(ctx: &Ctx, cases: &[Case], procs: usize, dir: &Path) -> HResult<(Vec<Found>, Vec<Case>)> {
+		let next = AtomicUsize::new(0);
+		let found: Mutex<Vec<Found>> = Mutex::new(vec![]);
+		let slow: Mutex<Vec<Case>> = Mutex::new(vec![]);
+		let total: Mutex<Tally> = Mutex::new(Tally::default());
+		let problems: Mutex<Vec<String>> = Mutex::new(vec![]);
+		std::thread::scope(|sc| {
+			for _ in 0..procs.max(1) {
+				sc.spawn(|| {
+					let mut t = Tally::default();
+					let mut w = match Worker::spawn(dir) {
+						Ok(w) => w,
+						Err(e) => {
+							problems.lock().unwrap().push(format!("cannot spawn worker: {}", e.0));
+							return;
+						}
+					};
+					loop {
+						let i = next.fetch_add(1, Ordering::SeqCst);
+						if i >= cases.len() {
+							break;
+						}
+						let c = &cases[i];
+						if !w.alive() {
+							w = match Worker::spawn(dir) {
+								Ok(w) => w,
+								Err(e) => {
+									problems.lock().unwrap().push(format!("cannot respawn worker: {}", e.0));
+									return;
+								}
+							};
+							t.class("worker_restarts".into());
+						}
+						let res = w.run(c, case_timeout());
+						account(&mut t, c, &res);
+						match &res {
+							Res::Timeout => slow.lock().unwrap().push(c.clone()),
+							_ => {
+								if let Some(fail) = judge(c, &res) {
+									found.lock().unwrap().push(Found { fail, case: c.clone() });
+								}
+							}
+						}
+					}
+					total.lock().unwrap().merge(t);
+				});
+			}
+		});
+		if let Some(p) = problems.lock().unwrap().first() {
+			return Err(HarnessError(p.clone()));
+		}
+		let t = total.into_inner().unwrap();
+		{
+			let mut g = ctx.ev.0.lock().unwrap();
+			g.evaluations += t.evals;
+			for (k, n) in &t.classes {
+				*g.classes.entry(k.clone()).or_insert(0) += n;
+			}
+			for h in &t.shapes {
+				g.shapes.insert(*h);
+			}
+		}
+		merge_honest_max(ctx, &t);
+		Ok((found.into_inner().unwrap(), slow.into_inner().unwrap()))
+	}
+
+	fn merge_honest_max(ctx: &Ctx, t: &Tally) {
+		let mut g = ctx.ev.0.lock().unwrap();
+		let mut cur: BTreeMap<String, Value> = g.extra.get("honest_alloc_max").and_then(|v| serde_json::from_value(v.clone()).ok()).unwrap_or_default();
+		for (k, v) in &t.honest_max {
+			let old = cur.get(k).map(|o| o["largest_request"].as_u64().unwrap_or(0)).unwrap_or(0);
+			if v.0 >= old {
+				cur.insert(k.clone(), json!({"largest_request": v.0, "peak_live": v.1, "input_len": v.2}));
+			}
+		}
+		g.extra.insert("honest_alloc_max".into(), json!(cur));
+		let old_us = g.extra.get("slowest_case_us").and_then(|v| v.as_u64()).unwrap_or(0);
+		if t.max_us > old_us {
+			g.extra.insert("slowest_case_us".into(), json!(t.max_us));
+			g.extra.insert("slowest_case".into(), json!(t.slowest));
+		}
+	}
+
+	/// a case that tripped the watchdog is re-run alone three times with a long limit
+	fn rerun_alone(dir: &Path, c: &Case) -> HResult<Option<Res>> {
+		let mut last = None;
+		for _ in 0..3 {
+			let mut w = Worker::spawn(dir)?;
+			let res = w.run(c, alone_timeout());
+			if !matches!(res, Res::Timeout) {
+				return Ok(Some(res));
+			}
+			last = Some(res);
+		}
+		let _ = last;
+		Ok(None)
+	}
+
+	/// one case in a fresh worker, strict: Err(Fail) on any violation
+	pub fn check_case(dir: &Path, c: &Case) -> Result<Res, Fail> {
+		let mut w = Worker::spawn(dir).map_err(|e| Fail::new("harness:spawn", e.0))?;
+		let res = w.run(c, case_timeout());
+		let res = if matches!(res, Res::Timeout) {
+			match rerun_alone(dir, c).map_err(|e| Fail::new("harness:spawn", e.0))? {
+				Some(r) => r,
+				None => return Err(judge(c, &Res::Timeout).unwrap()),
+			}
+		} else {
+			res
+		};
+		match judge(c, &res) {
+			Some(f) => Err(f),
+			None => Ok(res),
+		}
+	}
+
+	/// shrink a failing input: shortest prefix, then zeroed bytes, keeping the signature
+	fn minimise(dir: &Path, found: &Found) -> Case {
+		let mut best = found.case.clone();
+		let sig = &found.fail.sig;
+		let Ok(mut w) = Worker::spawn(dir) else { return best };
+		let mut runs = 0;
+		let still = |w: &mut Worker, c: &Case, runs: &mut u32| -> bool {
+			*runs += 1;
+			if !w.alive() {
+				match Worker::spawn(dir) {
+					Ok(n) => *w = n,
+					Err(_) => return false,
+				}
+			}
+			if excluded_by_known(c.entry, c.flags, &c.data).is_some() {
+				return false;
+			}
+			let res = w.run(c, case_timeout());
+			judge(c, &res).map(|f| &f.sig == sig).unwrap_or(false)
+		};
+		let text = best.text();
+		// shortest failing prefix (binary search, then linear refinement)
+		let (mut lo, mut hi) = (0usize, best.data.len());
+		while lo < hi && runs < 60 {
+			let mid = (lo + hi) / 2;
+			let mut c = best.clone();
+			c.data.truncate(mid);
+			if text && std::str::from_utf8(&c.data).is_err() {
+				lo = mid + 1;
+				continue;
+			}
+			if still(&mut w, &c, &mut runs) {
+				hi = mid;
+				best = c;
+			} else {
+				lo = mid + 1;
+			}
+		}
+		// zero what can be zeroed (binary inputs)
+		if !text {
+			let n = best.data.len().min(200);
+			for i in 0..n {
+				if runs > 300 {
+					break;
+				}
+				if best.data[i] == 0 {
+					continue;
+				}
+				let mut c = best.clone();
+				c.data[i] = 0;
+				if still(&mut w, &c, &mut runs) {
+					best = c;
+				}
+			}
+		}
+		best.kind = "minimised";
+		best
+	}
+
+	fn report_found(ctx: &Ctx, dir: &Path, part: &str, found: Vec<Found>) {
+		let mut by_sig: BTreeMap<String, Vec<Found>> = BTreeMap::new();
+		for f in found {
+			by_sig.entry(f.fail.sig.clone()).or_default().push(f);
+		}
+		for (sig, mut v) in by_sig {
+			v.sort_by(|a, b| (a.case.directed.is_none(), a.case.data.len(), &a.case.data).cmp(&(b.case.directed.is_none(), b.case.data.len(), &b.case.data)));
+			let n = v.len();
+			let first = &v[0];
+			let case = if first.case.directed.is_some() || ctx.is_known(&sig) { first.case.clone() } else { minimise(dir, first) };
+			let mut j = case.to_json();
+			j["occurrences_in_this_run"] = json!(n);
+			ctx.report(part, &sig, j, &first.fail.msg);
+			ctx.ev.class_n(&format!("failing_cases:{}", sig), n as u64);
+		}
+	}
+
+	// ------------------------------------------------------------------ run
+
+	fn real_blocks(ctx: &Ctx) -> Vec<Block> {
+		match crate::props::c02::base(ctx) {
+			Ok(b) => b.world.nodes.iter().skip(1).map(|n| n.block.clone()).collect(),
+			Err(e) => {
+				eprintln!("warning: real-PoW base chain not available ({}); untrusted block/header entries get no honest seeds", e);
+				vec![]
+			}
+		}
+	}
+
+	pub fn run(ctx: &Ctx) -> HResult<()> {
+		init_global();
+		let ev = &ctx.ev;
+		ev.rule("every case = (entry point, protocol version 1/2/3/1000, chain type, reader implementation, bytes or string) is decoded in a worker process under the counting allocator, then the stateless post-decode checks run on the value (validate_read, hydrate_from, into_segment, Segment::validate / validate_with against the roots of 16 MMR sizes with and without leaf bitmaps, SegmentProof::validate, MerkleProof::verify). Inputs: honest encodings of every type (synthetic values, objects of a real-PoW chain, segments cut by Segment::from_pmmr) whose field layout is recorded by a wrapping Reader; every u64/u32/u16 field set to boundary and huge values, leading u8 fields swept 0..255, truncation at every offset (short encodings) or every field boundary, every byte position set to 00/ff/+1/-1, bit flips, tails spliced from other messages, duplicated fields, appended bytes, random tails, pure random bytes/strings of length 0..4096; selected by water-filling over strata (entry, mutation kind) from the run seed. evaluations = inputs decoded; non-trivial = at least one successful primitive read (past the first field) or post-decode checks reached; distinct by (entry, mutation kind, field class, decode outcome, post-check outcomes)");
+		ev.assume("allocation bounds pinned against honest maximal messages (calibration cases, re-measured in every run, see honest_alloc_max): a full mainnet block / body / maximal transaction of 1.37 MB needs a largest single request of 1.49 MB and 2.9 MB live; a 2048-leaf rangeproof segment of 1.46 MB needs 1.41 MB / 1.47 MB; a framed full block needs exactly its body length in one request: all far below 4 MiB + 64 x len and 16 MiB + 64 x len, so the designed constants were kept");
+		ev.assume("the counting global allocator sees every heap request of the worker; a single request above 256 MiB is refused (the worker aborts, which is the observable), the address space of a worker is capped at 6 GiB");
+		ev.assume("MMR sizes handed to Segment::validate are sizes of real MMRs (they come from a PoW-validated archive header); MerkleProof::verify is only measured for paths of at most 128 hashes");
+		ev.assume("known findings are excluded by construction (declared Merkle path length <= 4096; segment validation skipped where the identifier lies beyond the last segment or has height >= 64; bitmap segment identifiers whose leaf offset reaches 2^63; hex strings the two from_hex defects choke on; framed inputs announcing more than 4 MiB that are not in the input) and kept as one directed case each");
+		ev.assume("StreamingReader (msg::read_item) has no caller on network data in this tree and is not an entry point; Codec::read is driven over a loopback socket whose write side is closed after the input, so read timeouts never fire");
+		ev.extra("entry_points", json!(ENTRIES.iter().map(|e| e.name).collect::<Vec<_>>()));
+		ev.extra("alloc_limits", json!({"largest_request": "4 MiB + 64 x len", "peak_live": "16 MiB + 64 x len", "hard_single_request": ALLOC_HARD_LIMIT}));
+		let dir = ctx.scratch_dir("c11");
+		let t0 = Instant::now();
+		let real = real_blocks(ctx);
+		ev.extra("real_blocks", json!(real.len()));
+		let budget = ctx.n(400_000, 4_000_000) as usize;
+		let g = generate(ctx.seed, budget, &real);
+		ev.extra("honest_seed_encodings", json!(g.n_seeds));
+		ev.extra("generation_s", json!(t0.elapsed().as_secs_f64()));
+		for u in &g.undecodable {
+			eprintln!("warning: honest seed does not decode: {}", u);
+			ev.class("honest_seed_not_decodable");
+		}
+		for (k, n) in &g.excluded {
+			ev.class_n(&format!("excluded_by_construction:{}", k), *n);
+		}
+		if let Some(c) = g.cases.iter().find(|c| c.kind == "u64-boundary") {
+			ev.sample("decode", || c.to_json());
+		}
+		// 1. calibration (honest maximal messages) and the directed cases of known findings
+		let mut pre = calibration_cases();
+		let n_cal = pre.len();
+		pre.extend(directed_cases());
+		if sens("hang") {
+			pre.push(Case { entry: E_PING, version: 1, flags: 0, data: b"HANG".to_vec(), kind: "sensitivity", fclass: "-".into(), origin: "deliberate hang".into(), directed: None });
+		}
+		let (found, slow) = run_pool(ctx, &pre, 4, &dir)?;
+		let mut all_slow = slow;
+		// a calibration case that violates the bounds means the constants are wrong for honest traffic
+		let (cal_fail, directed): (Vec<Found>, Vec<Found>) = found.into_iter().partition(|f| f.case.kind == "calibrate");
+		for f in &cal_fail {
+			eprintln!("CALIBRATION: honest maximal message {} violates the oracle: {} {}", f.case.origin, f.fail.sig, f.fail.msg);
+		}
+		ev.extra("calibration_cases", json!(n_cal));
+		let hit: Vec<&'static str> = directed.iter().filter_map(|f| f.case.directed).collect();
+		for c in directed_cases() {
+			if let Some(d) = c.directed {
+				ev.class(&format!("directed:{}:{}", d, if hit.contains(&d) { "still-fails" } else { "passes" }));
+			}
+		}
+		report_found(ctx, &dir, "directed", directed);
+		report_found(ctx, &dir, "calibration", cal_fail);
+		// 2. the generated cases
+		let t1 = Instant::now();
+		let (found, slow) = run_pool(ctx, &g.cases, WORKERS, &dir)?;
+		all_slow.extend(slow);
+		ev.extra("decode_wall_s", json!(t1.elapsed().as_secs_f64()));
+		report_found(ctx, &dir, "decode", found);
+		// 3. watchdog cases: alone, three times, long limit
+		for c in all_slow {
+			match rerun_alone(&dir, &c)? {
+				None => {
+					let f = judge(&c, &Res::Timeout).unwrap();
+					ctx.report("decode", &f.sig, c.to_json(), &format!("{} (three runs alone exceeded {} s each)", f.msg, alone_timeout().as_secs()));
+				}
+				Some(res) => {
+					ev.class("inconclusive_watchdog_then_finished_alone");
+					if let Some(fail) = judge(&c, &res) {
+						report_found(ctx, &dir, "decode", vec![Found { fail, case: c }]);
+					}
+				}
+			}
+		}
+		// 4. thorough: libFuzzer campaigns
+		if !ctx.quick() {
+			fuzz_campaigns(ctx, &real);
+		}
+		let _ = std::fs::remove_dir_all(&dir);
+		Ok(())
+	}
+
+	pub fn part(_ctx: &Ctx, _part: &str, _seed: u64, _cases: u32) -> Option<(Value, Fail)> {
+		None
+	}
+
+	pub fn replay(ctx: &Ctx, part: &str, case: &Value) -> PResult {
+		init_global();
+		let dir = ctx.scratch_dir("c11-replay");
+		let r = match part {
+			"decode" | "directed" | "calibration" | "fuzz" => {
+				let c = Case::from_json(case)?;
+				check_case(&dir, &c).map(|_| ())
+			}
+			_ => Ok(()),
+		};
+		let _ = std::fs::remove_dir_all(&dir);
+		r
+	}
+
+	// ------------------------------------------------------------------ E2: libFuzzer campaigns (thorough tier only)
+
+	/// per target: (-max_len, -malloc_limit_mb, share of the run count)
+	fn fuzz_params(group: &str) -> (usize, usize, f64) {
+		match group {
+			"msg_body" => (4096, 8, 1.0),
+			"block_tx" => (16384, 8, 0.5),
+			"header" => (2048, 8, 1.0),
+			"segment" => (16384, 8, 0.25),
+			"bitmap_segment" => (70000, 12, 0.25),
+			"merkle_proof" => (8192, 8, 1.0),
+			"framing" => (4096, 8, 1.0),
+			"codec" => (8192, 8, 0.05),
+			_ => (4096, 8, 0.1),
+		}
+	}
+
+	/// seed corpus: every honest encoding (that fits the target's max_len) in the fuzz input format
+	fn write_corpus(dir: &Path, seeds: &Seeds) -> std::io::Result<BTreeMap<String, usize>> {
+		let mut n: BTreeMap<String, usize> = BTreeMap::new();
+		for (i, s) in seeds.v.iter().enumerate() {
+			let Some((group, bytes)) = fuzz_join(s.entry, s.version, s.flags, &s.data) else { continue };
+			if bytes.len() > fuzz_params(group).0 {
+				continue;
+			}
+			let d = dir.join(group);
+			std::fs::create_dir_all(&d)?;
+			std::fs::write(d.join(format!("seed-{:04}-{}", i, entry_name(s.entry).replace(|c: char| !c.is_ascii_alphanumeric(), "_"))), bytes)?;
+			*n.entry(group.to_string()).or_insert(0) += 1;
+		}
+		Ok(n)
+	}
+
+	/// `gv child x C11 gen-corpus <dir>`
+	fn gen_corpus_main(dir: &Path) -> i32 {
+		init_global();
+		let root = std::env::var("GV_ROOT").map(PathBuf::from).unwrap_or_else(|_| PathBuf::from("/verif"));
+		let seed: u64 = std::env::var("VERIF_SEED").ok().and_then(|s| s.trim().parse::<i128>().ok()).map(|v| v as u64).unwrap_or(1);
+		let ctx = Ctx::new("C11", Tier::Quick, seed, root, "exploration");
+		let real = real_blocks(&ctx);
+		let seeds = build_seeds(seed, &real);
+		let r = write_corpus(dir, &seeds);
+		ctx.cleanup();
+		match r {
+			Ok(n) => {
+				eprintln!("corpus written to {}: {:?}", dir.display(), n);
+				0
+			}
+			Err(e) => {
+				eprintln!("cannot write corpus: {}", e);
+				2
+			}
+		}
+	}
+
+	fn fuzz_dir() -> PathBuf {
+		std::env::var("GV_C11_FUZZ_DIR").map(PathBuf::from).unwrap_or_else(|_| Path::new(env!("CARGO_MANIFEST_DIR")).join("fuzz"))
+	}
+
+	fn fuzz_build(fz: &Path) -> Result<PathBuf, String> {
+		let harness = fz.parent().ok_or("fuzz dir has no parent")?;
+		if !fz.join("Cargo.toml").exists() {
+			return Err(format!("{} not found", fz.join("Cargo.toml").display()));
+		}
+		if !fz.join("Cargo.lock").exists() {
+			std::fs::copy("/repo/Cargo.lock", fz.join("Cargo.lock")).map_err(|e| format!("cannot copy /repo/Cargo.lock: {}", e))?;
+		}
+		let out = Command::new("cargo")
+			.args(["+nightly", "fuzz", "build", "-O"])
+			.current_dir(harness)
+			.env("CARGO_NET_OFFLINE", "true")
+			.env("RUSTFLAGS", "--cfg grin_verif")
+			.env_remove("CARGO_TARGET_DIR")
+			.output()
+			.map_err(|e| format!("cannot run cargo fuzz: {}", e))?;
+		if !out.status.success() {
+			let err = String::from_utf8_lossy(&out.stderr);
+			let tail: Vec<&str> = err.lines().rev().take(12).collect();
+			return Err(format!("cargo +nightly fuzz build -O failed: {}", tail.into_iter().rev().collect::<Vec<_>>().join(" | ")));
+		}
+		Ok(fz.join("target").join("x86_64-unknown-linux-gnu").join("release"))
+	}
+
+	fn crash_kind(stderr: &str) -> String {
+		if let Some(l) = stderr.lines().find(|l| l.starts_with("C11 fuzz:")) {
+			return truncate(l.trim_start_matches("C11 fuzz:").trim(), 160);
+		}
+		for (pat, k) in [("out-of-memory (malloc", "malloc-limit"), ("out-of-memory", "rss-limit"), ("timeout", "timeout"), ("stack-overflow", "stack-overflow"), ("deadly signal", "deadly-signal"), ("AddressSanitizer", "asan")] {
+			if stderr.contains(pat) {
+				return k.to_string();
+			}
+		}
+		"crash".into()
+	}
+
+	fn fuzz_campaigns(ctx: &Ctx, real: &[Block]) {
+		let ev = &ctx.ev;
+		let fz = fuzz_dir();
+		let t0 = Instant::now();
+		let bins = match fuzz_build(&fz) {
+			Ok(b) => b,
+			Err(e) => {
+				eprintln!("C11: libFuzzer campaigns SKIPPED: {}", e);
+				ev.extra("fuzz_status", json!(format!("skipped: {}", e)));
+				ev.class("fuzz_campaigns_skipped");
+				return;
+			}
+		};
+		ev.extra("fuzz_build_s", json!(t0.elapsed().as_secs_f64()));
+		let work = ctx.scratch_dir("fuzz");
+		let seeds = build_seeds(ctx.seed, real);
+		let counts = match write_corpus(&work.join("corpus"), &seeds) {
+			Ok(c) => c,
+			Err(e) => {
+				eprintln!("C11: libFuzzer campaigns SKIPPED: corpus: {}", e);
+				ev.extra("fuzz_status", json!(format!("skipped: corpus: {}", e)));
+				return;
+			}
+		};
+		ev.extra("fuzz_seed_corpus", json!(counts));
+		// sensitivity: an extra corpus file (e.g. the self-test input of fuzz/src/lib.rs)
+		if let Ok(p) = std::env::var("GV_C11_FUZZ_EXTRA_SEED") {
+			let _ = std::fs::copy(&p, work.join("corpus").join("msg_body").join("extra-seed"));
+		}
+		let runs_base = ctx.n(0, 2_000_000);
+		let results: Mutex<Vec<(String, u64, f64, Vec<(PathBuf, String)>)>> = Mutex::new(vec![]);
+		std::thread::scope(|sc| {
+			for g in GROUPS {
+				let (work, bins, results) = (&work, &bins, &results);
+				sc.spawn(move || {
+					let (max_len, malloc_mb, share) = fuzz_params(g);
+					let runs = ((runs_base as f64) * share).ceil() as u64;
+					let corpus = work.join("corpus").join(g);
+					let arts = work.join("artifacts").join(g);
+					let _ = std::fs::create_dir_all(&corpus);
+					let _ = std::fs::create_dir_all(&arts);
+					let t = Instant::now();
+					let out = Command::new(bins.join(g))
+						.arg(&corpus)
+						.args([
+							format!("-runs={}", runs),
+							format!("-seed={}", (ctx.seed % 0xffff_ffff).max(1)),
+							"-len_control=0".to_string(),
+							format!("-max_len={}", max_len),
+							format!("-malloc_limit_mb={}", malloc_mb),
+							"-rss_limit_mb=3072".to_string(),
+							"-timeout=20".to_string(),
+							"-print_final_stats=1".to_string(),
+							format!("-artifact_prefix={}/", arts.display()),
+						])
+						.env("RUST_BACKTRACE", "0")
+						.env("ASAN_OPTIONS", "detect_odr_violation=0:detect_leaks=0")
+						.stdin(Stdio::null())
+						.stdout(Stdio::null())
+						.output();
+					let (execs, crashes) = match out {
+						Ok(o) => {
+							let err = String::from_utf8_lossy(&o.stderr).to_string();
+							let execs = err
+								.lines()
+								.find_map(|l| l.strip_prefix("stat::number_of_executed_units:").and_then(|n| n.trim().parse::<u64>().ok()))
+								.unwrap_or(0);
+							let mut crashes = vec![];
+							if let Ok(rd) = std::fs::read_dir(&arts) {
+								for e in rd.flatten() {
+									crashes.push((e.path(), crash_kind(&err)));
+								}
+							}
+							if !o.status.success() && crashes.is_empty() {
+								crashes.push((PathBuf::new(), format!("exit {:?}: {}", o.status.code(), truncate(err.lines().last().unwrap_or(""), 160))));
+							}
+							(execs, crashes)
+						}
+						Err(e) => (0, vec![(PathBuf::new(), format!("cannot start target: {}", e))]),
+					};
+					results.lock().unwrap().push((g.to_string(), execs, t.elapsed().as_secs_f64(), crashes));
+				});
+			}
+		});
+		let dir = ctx.scratch_dir("c11-fuzz-replay");
+		let mut res = results.into_inner().unwrap();
+		res.sort_by(|a, b| a.0.cmp(&b.0));
+		let mut summary = serde_json::Map::new();
+		for (g, execs, secs, crashes) in res {
+			ev.evals(execs);
+			ev.class_n(&format!("fuzz_executions:{}", g), execs);
+			ev.nontrivial(&("fuzz", &g));
+			summary.insert(g.clone(), json!({"executions": execs, "seconds": secs, "crash_files": crashes.len()}));
+			for (path, kind) in crashes {
+				let bytes = std::fs::read(&path).unwrap_or_default();
+				if path.as_os_str().is_empty() {
+					ev.class(&format!("fuzz_target_problem:{}", g));
+					eprintln!("C11: fuzz target {} ended abnormally without an artifact: {}", g, kind);
+					continue;
+				}
+				// keep the artifact and re-run the input through the worker path for a canonical signature
+				let keep = ctx.root.join("out").join("C11");
+				let _ = std::fs::create_dir_all(&keep);
+				let kept = keep.join(format!("fuzz-{}-{}", g, path.file_name().and_then(|f| f.to_str()).unwrap_or("artifact")));
+				let _ = std::fs::copy(&path, &kept);
+				match fuzz_split(g.as_str(), &bytes) {
+					Some((entry, version, flags, data)) => {
+						let c = Case { entry, version, flags, data: data.to_vec(), kind: "fuzz", fclass: "-".into(), origin: format!("libFuzzer:{}", g), directed: None };
+						let mut j = c.to_json();
+						j["artifact"] = json!(kept.display().to_string());
+						j["libfuzzer_says"] = json!(kind);
+						// an input excluded by construction never reaches the decoders inside the target
+						let rerun = if excluded_by_known(entry, flags, data).is_some() { Ok(()) } else { check_case(&dir, &c).map(|_| ()) };
+						match rerun {
+							Err(f) => ctx.report("fuzz", &f.sig, j, &f.msg),
+							Ok(_) => ctx.report("fuzz", &format!("fuzz-crash:{}:{}", g, kind.split(' ').next().unwrap_or("crash")), j, &format!("libFuzzer target {} crashed ({}) but the worker does not reproduce it", g, kind)),
+						}
+					}
+					None => ctx.report("fuzz", &format!("fuzz-crash:{}:short-input", g), json!({"artifact": kept.display().to_string()}), &kind),
+				}
+			}
+		}
+		ev.extra("fuzz_campaigns", Value::Object(summary));
+		ev.extra("fuzz_status", json!("ran"));
+		let _ = std::fs::remove_dir_all(&work);
+		let _ = std::fs::remove_dir_all(&dir);
+	}
 }
